@@ -4289,679 +4289,753 @@ let literal_node s =
    | TFALSE -> Some (POk ((NBool t0), (adv s)))
    | _ -> None)
 
-(** val parse_block : bool -> nat -> btype -> node list p **)
+type prs = { pr_fuel : nat; pr_parse_eval : node p;
+             pr_parse_logical : node p; pr_parse_comparison : node p;
+             pr_parse_strexpr : node p; pr_parse_arith : node p;
+             pr_parse_term : node p; pr_parse_factor : node p;
+             pr_parse_atom : node p; pr_parse_moddiv : node p;
+             pr_parse_cast : node p;
+             pr_parse_args : (node list -> node list p);
+             pr_parse_arglist : node list p; pr_parse_fncall : node p;
+             pr_parse_indices : (node list -> node list p);
+             pr_parse_resolver_tail : (resolver -> resolver p);
+             pr_parse_resolver : resolver p;
+             pr_parse_ids : (token list -> token list p);
+             pr_parse_bounds : (node list -> node list p);
+             pr_parse_declare : node p; pr_parse_const : node p;
+             pr_parse_enum_vals : (str list -> str list p);
+             pr_parse_comp_body : (node list -> node list p);
+             pr_parse_type : node p;
+             pr_parse_if_tail : ((node option * node list) list -> (node
+                                option * node list) list p);
+             pr_parse_if : node p;
+             pr_parse_case_clauses : (casecomp list -> casecomp list p);
+             pr_parse_case : node p; pr_parse_while : node p;
+             pr_parse_repeat : node p; pr_parse_for : node p;
+             pr_parse_params : (pacc -> pacc p);
+             pr_parse_paramlist : ((str * token) * bool) list p;
+             pr_parse_procedure : node p; pr_parse_function : node p;
+             pr_parse_call : node p;
+             pr_parse_output_tail : (node list -> node list p);
+             pr_parse_statement : node p;
+             pr_parse_block_loop : (btype -> node list -> node list p);
+             pr_parse_block : (btype -> node list p) }
 
-let parse_block pedantic =
-  let rec parse_eval = function
-  | O -> pfuel
-  | S f ->
-    pbind (parse_logical f) (fun l ->
-      binloop f op_eq (parse_logical f) (fun x x0 x1 -> NCmp (x, x0, x1)) l)
-  and parse_logical = function
-  | O -> pfuel
-  | S f ->
-    pbind (parse_comparison f) (fun l ->
-      binloop f op_logic (parse_comparison f) (fun x x0 x1 -> NLogic (x, x0,
-        x1)) l)
-  and parse_comparison = function
-  | O -> pfuel
-  | S f ->
-    (fun s ->
-      if is_t s TNOT
-      then let t0 = cur s in
-           pbind padv (fun _ ->
-             pbind (parse_comparison f) (fun e -> pret (NNot (t0, e)))) s
-      else pbind (parse_strexpr f) (fun l ->
-             binloop f op_cmp (parse_strexpr f) (fun x x0 x1 -> NCmp (x, x0,
-               x1)) l) s)
-  and parse_strexpr = function
-  | O -> pfuel
-  | S f ->
-    pbind (parse_arith f) (fun l ->
-      binloop f op_cat (parse_arith f) (fun x x0 x1 -> NCat (x, x0, x1)) l)
-  and parse_arith = function
-  | O -> pfuel
-  | S f ->
-    pbind (parse_term f) (fun l ->
-      binloop f op_add (parse_term f) (fun x x0 x1 -> NArith (x, x0, x1)) l)
-  and parse_term = function
-  | O -> pfuel
-  | S f ->
-    pbind (parse_factor f) (fun l ->
-      binloop f op_mul (parse_factor f) (fun x x0 x1 -> NArith (x, x0, x1)) l)
-  and parse_factor = function
-  | O -> pfuel
-  | S f ->
-    (fun s ->
-      if is_t s TMINUS
-      then let t0 = cur s in
-           pbind padv (fun _ ->
-             pbind (parse_atom f) (fun a -> pret (NNeg (t0, a)))) s
-      else parse_atom f s)
-  and parse_atom = function
-  | O -> pfuel
-  | S f ->
-    (fun s ->
-      let t0 = cur s in
-      (match literal_node s with
-       | Some r -> r
-       | None ->
-         (match t0.tt with
-          | TDATE -> POk ((NDate t0), (adv s))
-          | TLPAREN ->
+(** val parse_eval_body : prs -> node p **)
+
+let parse_eval_body self =
+  pbind self.pr_parse_logical (fun l ->
+    binloop self.pr_fuel op_eq self.pr_parse_logical (fun x x0 x1 -> NCmp (x,
+      x0, x1)) l)
+
+(** val parse_logical_body : prs -> node p **)
+
+let parse_logical_body self =
+  pbind self.pr_parse_comparison (fun l ->
+    binloop self.pr_fuel op_logic self.pr_parse_comparison (fun x x0 x1 ->
+      NLogic (x, x0, x1)) l)
+
+(** val parse_comparison_body : prs -> node p **)
+
+let parse_comparison_body self s =
+  if is_t s TNOT
+  then let t0 = cur s in
+       pbind padv (fun _ ->
+         pbind self.pr_parse_comparison (fun e -> pret (NNot (t0, e)))) s
+  else pbind self.pr_parse_strexpr (fun l ->
+         binloop self.pr_fuel op_cmp self.pr_parse_strexpr (fun x x0 x1 ->
+           NCmp (x, x0, x1)) l) s
+
+(** val parse_strexpr_body : prs -> node p **)
+
+let parse_strexpr_body self =
+  pbind self.pr_parse_arith (fun l ->
+    binloop self.pr_fuel op_cat self.pr_parse_arith (fun x x0 x1 -> NCat (x,
+      x0, x1)) l)
+
+(** val parse_arith_body : prs -> node p **)
+
+let parse_arith_body self =
+  pbind self.pr_parse_term (fun l ->
+    binloop self.pr_fuel op_add self.pr_parse_term (fun x x0 x1 -> NArith (x,
+      x0, x1)) l)
+
+(** val parse_term_body : prs -> node p **)
+
+let parse_term_body self =
+  pbind self.pr_parse_factor (fun l ->
+    binloop self.pr_fuel op_mul self.pr_parse_factor (fun x x0 x1 -> NArith
+      (x, x0, x1)) l)
+
+(** val parse_factor_body : prs -> node p **)
+
+let parse_factor_body self s =
+  if is_t s TMINUS
+  then let t0 = cur s in
+       pbind padv (fun _ ->
+         pbind self.pr_parse_atom (fun a -> pret (NNeg (t0, a)))) s
+  else self.pr_parse_atom s
+
+(** val parse_atom_body : prs -> node p **)
+
+let parse_atom_body self s =
+  let t0 = cur s in
+  (match literal_node s with
+   | Some r -> r
+   | None ->
+     (match t0.tt with
+      | TDATE -> POk ((NDate t0), (adv s))
+      | TLPAREN ->
+        pbind padv (fun _ ->
+          pbind self.pr_parse_eval (fun e ->
+            pbind (expect TRPAREN) (fun _ -> pret e))) s
+      | TDIV ->
+        if next_is s (S O) TLPAREN then self.pr_parse_moddiv s else perr s
+      | TMOD ->
+        if next_is s (S O) TLPAREN then self.pr_parse_moddiv s else perr s
+      | TIDENTIFIER ->
+        if next_is s (S O) TLPAREN
+        then self.pr_parse_fncall s
+        else pbind self.pr_parse_resolver (fun r s1 ->
+               if is_t s1 TASSIGNMENT
+               then let at_ = cur s1 in
+                    let s2 = adv s1 in
+                    if is_t s2 TCARET
+                    then let rt = cur s2 in
+                         let s3 = adv s2 in
+                         if is_t s3 TIDENTIFIER
+                         then pbind self.pr_parse_resolver (fun v ->
+                                pret (NPtrAssign (rt, r, v))) s3
+                         else perr s3
+                    else pbind self.pr_parse_eval (fun e ->
+                           pret (NAssign (at_, e, r))) s2
+               else POk ((NAccess (t0, r)), s1)) s
+      | TDATA_TYPE -> self.pr_parse_cast s
+      | _ -> perr s))
+
+(** val parse_moddiv_body : prs -> node p **)
+
+let parse_moddiv_body self =
+  pbind pcur (fun t0 ->
+    pbind padv (fun _ ->
+      pbind padv (fun _ ->
+        pbind self.pr_parse_eval (fun a ->
+          pbind (expect TCOMMA) (fun _ ->
+            pbind self.pr_parse_eval (fun b ->
+              pbind (expect TRPAREN) (fun _ -> pret (NArith (t0, a, b)))))))))
+
+(** val parse_cast_body : bool -> prs -> node p **)
+
+let parse_cast_body pedantic self =
+  pbind pcur (fun t0 ->
+    if pedantic
+    then pped t0
+    else (match psc_type_of_word t0.tval with
+          | Some k ->
             pbind padv (fun _ ->
-              pbind (parse_eval f) (fun e ->
-                pbind (expect TRPAREN) (fun _ -> pret e))) s
-          | TDIV ->
-            if next_is s (S O) TLPAREN then parse_moddiv f s else perr s
-          | TMOD ->
-            if next_is s (S O) TLPAREN then parse_moddiv f s else perr s
-          | TIDENTIFIER ->
-            if next_is s (S O) TLPAREN
-            then parse_fncall f s
-            else pbind (parse_resolver f) (fun r s1 ->
-                   if is_t s1 TASSIGNMENT
-                   then let at_ = cur s1 in
-                        let s2 = adv s1 in
-                        if is_t s2 TCARET
-                        then let rt = cur s2 in
-                             let s3 = adv s2 in
-                             if is_t s3 TIDENTIFIER
-                             then pbind (parse_resolver f) (fun v ->
-                                    pret (NPtrAssign (rt, r, v))) s3
-                             else perr s3
-                        else pbind (parse_eval f) (fun e ->
-                               pret (NAssign (at_, e, r))) s2
-                   else POk ((NAccess (t0, r)), s1)) s
-          | TDATA_TYPE -> parse_cast f s
-          | _ -> perr s)))
-  and parse_moddiv = function
-  | O -> pfuel
-  | S f ->
-    pbind pcur (fun t0 ->
+              pbind (expect TLPAREN) (fun _ ->
+                pbind self.pr_parse_eval (fun e ->
+                  pbind (expect TRPAREN) (fun _ -> pret (NCast (t0, e, k))))))
+          | None -> perr))
+
+(** val parse_args_body : prs -> node list -> node list p **)
+
+let parse_args_body self acc s =
+  if is_t s TCOMMA
+  then pbind padv (fun _ ->
+         pbind self.pr_parse_eval (fun e -> self.pr_parse_args (e :: acc))) s
+  else pbind (expect TRPAREN) (fun _ -> pret (rev acc)) s
+
+(** val parse_arglist_body : prs -> node list p **)
+
+let parse_arglist_body self s =
+  if is_t s TRPAREN
+  then POk ([], (adv s))
+  else pbind self.pr_parse_eval (fun e -> self.pr_parse_args (e :: [])) s
+
+(** val parse_fncall_body : prs -> node p **)
+
+let parse_fncall_body self =
+  pbind pcur (fun t0 ->
+    pbind padv (fun _ ->
       pbind padv (fun _ ->
-        pbind padv (fun _ ->
-          pbind (parse_eval f) (fun a ->
-            pbind (expect TCOMMA) (fun _ ->
-              pbind (parse_eval f) (fun b ->
-                pbind (expect TRPAREN) (fun _ -> pret (NArith (t0, a, b)))))))))
-  and parse_cast = function
-  | O -> pfuel
-  | S f ->
-    pbind pcur (fun t0 ->
-      if pedantic
-      then pped t0
-      else (match psc_type_of_word t0.tval with
-            | Some k ->
-              pbind padv (fun _ ->
-                pbind (expect TLPAREN) (fun _ ->
-                  pbind (parse_eval f) (fun e ->
-                    pbind (expect TRPAREN) (fun _ -> pret (NCast (t0, e, k))))))
-            | None -> perr))
-  and parse_args fuel acc =
-    match fuel with
-    | O -> pfuel
-    | S f ->
-      (fun s ->
+        pbind self.pr_parse_arglist (fun args -> pret (NFnCall (t0, args))))))
+
+(** val parse_indices_body : prs -> node list -> node list p **)
+
+let parse_indices_body self acc =
+  pbind self.pr_parse_arith (fun e s ->
+    if is_t s TCOMMA
+    then self.pr_parse_indices (e :: acc) (adv s)
+    else pbind (expect TRSQRBRACKET) (fun _ -> pret (rev (e :: acc))) s)
+
+(** val parse_resolver_tail_body : prs -> resolver -> resolver p **)
+
+let parse_resolver_tail_body self r s =
+  let t0 = cur s in
+  (match t0.tt with
+   | TLSQRBRACKET ->
+     pbind (self.pr_parse_indices []) (fun idx ->
+       self.pr_parse_resolver_tail (RIndex (t0, r, idx))) (adv s)
+   | TCARET -> self.pr_parse_resolver_tail (RDeref (t0, r)) (adv s)
+   | TPERIOD ->
+     let s1 = adv s in
+     self.pr_parse_resolver_tail (RField (t0, r, (cur s1))) (adv s1)
+   | _ -> POk (r, s))
+
+(** val parse_resolver_body : prs -> resolver p **)
+
+let parse_resolver_body self =
+  pbind pcur (fun t0 ->
+    pbind padv (fun _ -> self.pr_parse_resolver_tail (RSimple t0)))
+
+(** val parse_ids_body : prs -> token list -> token list p **)
+
+let parse_ids_body self acc s =
+  if is_t s TIDENTIFIER
+  then let t0 = cur s in
+       let s1 = adv s in
+       if is_t s1 TCOMMA
+       then self.pr_parse_ids (t0 :: acc) (adv s1)
+       else POk ((rev (t0 :: acc)), s1)
+  else perr s
+
+(** val parse_bounds_body : prs -> node list -> node list p **)
+
+let parse_bounds_body self acc =
+  pbind self.pr_parse_arith (fun lo ->
+    pbind (expect TCOLON) (fun _ ->
+      pbind self.pr_parse_arith (fun hi s ->
         if is_t s TCOMMA
-        then pbind padv (fun _ ->
-               pbind (parse_eval f) (fun e -> parse_args f (e :: acc))) s
-        else pbind (expect TRPAREN) (fun _ -> pret (rev acc)) s)
-  and parse_arglist = function
-  | O -> pfuel
-  | S f ->
-    (fun s ->
-      if is_t s TRPAREN
-      then POk ([], (adv s))
-      else pbind (parse_eval f) (fun e -> parse_args f (e :: [])) s)
-  and parse_fncall = function
-  | O -> pfuel
-  | S f ->
-    pbind pcur (fun t0 ->
-      pbind padv (fun _ ->
-        pbind padv (fun _ ->
-          pbind (parse_arglist f) (fun args -> pret (NFnCall (t0, args))))))
-  and parse_indices fuel acc =
-    match fuel with
-    | O -> pfuel
-    | S f ->
-      pbind (parse_arith f) (fun e s ->
-        if is_t s TCOMMA
-        then parse_indices f (e :: acc) (adv s)
-        else pbind (expect TRSQRBRACKET) (fun _ -> pret (rev (e :: acc))) s)
-  and parse_resolver_tail fuel r =
-    match fuel with
-    | O -> pfuel
-    | S f ->
-      (fun s ->
-        let t0 = cur s in
-        (match t0.tt with
-         | TINTEGER -> POk (r, s)
-         | TREAL -> POk (r, s)
-         | TCHAR -> POk (r, s)
-         | TSTRING -> POk (r, s)
-         | TDATE -> POk (r, s)
-         | TRPAREN -> POk (r, s)
-         | TLPAREN -> POk (r, s)
-         | TPLUS -> POk (r, s)
-         | TMINUS -> POk (r, s)
-         | TSTAR -> POk (r, s)
-         | TSLASH -> POk (r, s)
-         | TDIV -> POk (r, s)
-         | TMOD -> POk (r, s)
-         | TAMPERSAND -> POk (r, s)
-         | TASSIGNMENT -> POk (r, s)
-         | TCOLON -> POk (r, s)
-         | TCOMMA -> POk (r, s)
-         | TEQUALS -> POk (r, s)
-         | TNOT_EQUALS -> POk (r, s)
-         | TGREATER -> POk (r, s)
-         | TLESSER -> POk (r, s)
-         | TGREATER_EQUAL -> POk (r, s)
-         | TLESSER_EQUAL -> POk (r, s)
-         | TAND -> POk (r, s)
-         | TOR -> POk (r, s)
-         | TNOT -> POk (r, s)
-         | TTRUE -> POk (r, s)
-         | TFALSE -> POk (r, s)
-         | TDECLARE -> POk (r, s)
-         | TCONSTANT -> POk (r, s)
-         | TIDENTIFIER -> POk (r, s)
-         | TDATA_TYPE -> POk (r, s)
-         | TARRAY -> POk (r, s)
-         | TLSQRBRACKET ->
-           pbind (parse_indices f []) (fun idx ->
-             parse_resolver_tail f (RIndex (t0, r, idx))) (adv s)
-         | TCARET -> parse_resolver_tail f (RDeref (t0, r)) (adv s)
-         | TPERIOD ->
+        then self.pr_parse_bounds (hi :: (lo :: acc)) (adv s)
+        else POk ((rev (hi :: (lo :: acc))), s))))
+
+(** val parse_declare_body : prs -> node p **)
+
+let parse_declare_body self =
+  pbind pcur (fun op ->
+    pbind padv (fun _ ->
+      pbind (self.pr_parse_ids []) (fun ids ->
+        pbind (expect TCOLON) (fun _ s ->
+          if is_t s TARRAY
+          then pbind padv (fun _ ->
+                 pbind (expect TLSQRBRACKET) (fun _ ->
+                   pbind (self.pr_parse_bounds []) (fun bs ->
+                     pbind (expect TRSQRBRACKET) (fun _ ->
+                       pbind (expect TOF) (fun _ s1 ->
+                         if is_type_tok s1
+                         then POk ((NArrDeclare (op, ids, (cur s1), bs)),
+                                (adv s1))
+                         else perr s1))))) s
+          else if is_type_tok s
+               then POk ((NDeclare (op, ids, (cur s))), (adv s))
+               else perr s))))
+
+(** val parse_const_body : prs -> node p **)
+
+let parse_const_body _ =
+  pbind pcur (fun op ->
+    pbind padv (fun _ s ->
+      if negb (is_t s TIDENTIFIER)
+      then perr s
+      else let id = cur s in
            let s1 = adv s in
-           parse_resolver_tail f (RField (t0, r, (cur s1))) (adv s1)
-         | _ -> POk (r, s)))
-  and parse_resolver = function
-  | O -> pfuel
-  | S f ->
-    pbind pcur (fun t0 ->
-      pbind padv (fun _ -> parse_resolver_tail f (RSimple t0)))
-  and parse_ids fuel acc =
-    match fuel with
-    | O -> pfuel
-    | S f ->
-      (fun s ->
-        if is_t s TIDENTIFIER
-        then let t0 = cur s in
-             let s1 = adv s in
-             if is_t s1 TCOMMA
-             then parse_ids f (t0 :: acc) (adv s1)
-             else POk ((rev (t0 :: acc)), s1)
-        else perr s)
-  and parse_bounds fuel acc =
-    match fuel with
-    | O -> pfuel
-    | S f ->
-      pbind (parse_arith f) (fun lo ->
-        pbind (expect TCOLON) (fun _ ->
-          pbind (parse_arith f) (fun hi s ->
-            if is_t s TCOMMA
-            then parse_bounds f (hi :: (lo :: acc)) (adv s)
-            else POk ((rev (hi :: (lo :: acc))), s))))
-  and parse_declare = function
-  | O -> pfuel
-  | S f ->
-    pbind pcur (fun op ->
-      pbind padv (fun _ ->
-        pbind (parse_ids f []) (fun ids ->
-          pbind (expect TCOLON) (fun _ s ->
-            if is_t s TARRAY
-            then pbind padv (fun _ ->
-                   pbind (expect TLSQRBRACKET) (fun _ ->
-                     pbind (parse_bounds f []) (fun bs ->
-                       pbind (expect TRSQRBRACKET) (fun _ ->
-                         pbind (expect TOF) (fun _ s1 ->
-                           if is_type_tok s1
-                           then POk ((NArrDeclare (op, ids, (cur s1), bs)),
-                                  (adv s1))
-                           else perr s1))))) s
-            else if is_type_tok s
-                 then POk ((NDeclare (op, ids, (cur s))), (adv s))
-                 else perr s))))
-  and parse_const = function
-  | O -> pfuel
-  | S _ ->
-    pbind pcur (fun op ->
-      pbind padv (fun _ s ->
+           if negb ((||) (is_t s1 TEQUALS) (is_t s1 TASSIGNMENT))
+           then perr s1
+           else let s2 = adv s1 in
+                let mt = cur s2 in
+                let neg = is_t s2 TMINUS in
+                let s3 = if neg then adv s2 else s2 in
+                (match literal_node s3 with
+                 | Some p0 ->
+                   (match p0 with
+                    | POk (v, s4) ->
+                      POk ((NConst (op, (if neg then NNeg (mt, v) else v),
+                        id)), s4)
+                    | x -> x)
+                 | None -> perr s3)))
+
+(** val parse_enum_vals_body : prs -> str list -> str list p **)
+
+let parse_enum_vals_body self acc s =
+  if negb (is_t s TIDENTIFIER)
+  then perr s
+  else let v = (cur s).tval in
+       let s1 = adv s in
+       if is_t s1 TCOMMA
+       then self.pr_parse_enum_vals (v :: acc) (adv s1)
+       else if is_t s1 TRPAREN
+            then POk ((rev (v :: acc)), (adv s1))
+            else perr s1
+
+(** val parse_comp_body_body : prs -> node list -> node list p **)
+
+let parse_comp_body_body self acc s =
+  if is_t s TDECLARE
+  then pbind self.pr_parse_declare (fun d ->
+         pbind (expect TLINE_END) (fun _ ->
+           pbind skip_nl (fun _ -> self.pr_parse_comp_body (d :: acc)))) s
+  else pbind (expect TENDTYPE) (fun _ -> pret (rev acc)) s
+
+(** val parse_type_body : prs -> node p **)
+
+let parse_type_body self =
+  pbind pcur (fun t0 ->
+    pbind padv (fun _ ->
+      pbind skip_nl (fun _ s ->
         if negb (is_t s TIDENTIFIER)
         then perr s
         else let id = cur s in
              let s1 = adv s in
-             if negb ((||) (is_t s1 TEQUALS) (is_t s1 TASSIGNMENT))
-             then perr s1
+             if negb (is_t s1 TEQUALS)
+             then if negb (is_t s1 TLINE_END)
+                  then perr s1
+                  else pbind skip_nl (fun _ ->
+                         pbind (self.pr_parse_comp_body []) (fun body ->
+                           pret (NCompDef (t0, id, body)))) (adv s1)
              else let s2 = adv s1 in
-                  let mt = cur s2 in
-                  let neg = is_t s2 TMINUS in
-                  let s3 = if neg then adv s2 else s2 in
-                  (match literal_node s3 with
-                   | Some p0 ->
-                     (match p0 with
-                      | POk (v, s4) ->
-                        POk ((NConst (op, (if neg then NNeg (mt, v) else v),
-                          id)), s4)
-                      | x -> x)
-                   | None -> perr s3)))
-  and parse_enum_vals fuel acc =
-    match fuel with
-    | O -> pfuel
-    | S f ->
-      (fun s ->
+                  if is_t s2 TCARET
+                  then let s3 = adv s2 in
+                       if is_type_tok s3
+                       then POk ((NPtrDef (t0, id, (cur s3))), (adv s3))
+                       else perr s3
+                  else if is_t s2 TLPAREN
+                       then pbind (self.pr_parse_enum_vals []) (fun vs ->
+                              pret (NEnumDef (t0, id, vs))) (adv s2)
+                       else perr s2)))
+
+(** val parse_if_tail_body :
+    bool -> prs -> (node option * node list) list -> (node option * node
+    list) list p **)
+
+let parse_if_tail_body pedantic self acc s =
+  if is_t s TELSE
+  then let s1 = adv s in
+       if is_t s1 TIF
+       then if pedantic
+            then PFail (LexPedantic, (cur s1), s1)
+            else pbind self.pr_parse_eval (fun c ->
+                   pbind skip_nl (fun _ ->
+                     pbind (expect TTHEN) (fun _ ->
+                       pbind (self.pr_parse_block BOther) (fun b ->
+                         self.pr_parse_if_tail (((Some c), b) :: acc)))))
+                   (adv s1)
+       else pbind (self.pr_parse_block BOther) (fun b ->
+              pbind (expect TENDIF) (fun _ -> pret (rev ((None, b) :: acc))))
+              s1
+  else pbind (expect TENDIF) (fun _ -> pret (rev acc)) s
+
+(** val parse_if_body : prs -> node p **)
+
+let parse_if_body self =
+  pbind pcur (fun t0 ->
+    pbind padv (fun _ ->
+      pbind self.pr_parse_eval (fun c ->
+        pbind skip_nl (fun _ ->
+          pbind (expect TTHEN) (fun _ ->
+            pbind (self.pr_parse_block BOther) (fun b ->
+              pbind (self.pr_parse_if_tail (((Some c), b) :: []))
+                (fun comps -> pret (NIf (t0, comps)))))))))
+
+(** val parse_case_clauses_body : prs -> casecomp list -> casecomp list p **)
+
+let parse_case_clauses_body self acc s =
+  if is_t s TENDCASE
+  then POk ((rev acc), (adv s))
+  else if is_t s TOTHERWISE
+       then pbind padv (fun _ ->
+              pbind (expect TCOLON) (fun _ ->
+                pbind (self.pr_parse_block BCase) (fun b ->
+                  pbind (expect TENDCASE) (fun _ ->
+                    pret (rev ((COther b) :: acc)))))) s
+       else pbind self.pr_parse_eval (fun e s1 ->
+              if is_t s1 TTO
+              then pbind padv (fun _ ->
+                     pbind self.pr_parse_eval (fun hi ->
+                       pbind (expect TCOLON) (fun _ ->
+                         pbind (self.pr_parse_block BCase) (fun b ->
+                           self.pr_parse_case_clauses ((CRange (b, e,
+                             hi)) :: acc))))) s1
+              else pbind (expect TCOLON) (fun _ ->
+                     pbind (self.pr_parse_block BCase) (fun b ->
+                       self.pr_parse_case_clauses ((CEq (b, e)) :: acc))) s1)
+              s
+
+(** val parse_case_body : prs -> node p **)
+
+let parse_case_body self =
+  pbind pcur (fun t0 ->
+    pbind padv (fun _ ->
+      pbind (expect TOF) (fun _ s ->
         if negb (is_t s TIDENTIFIER)
         then perr s
-        else let v = (cur s).tval in
-             let s1 = adv s in
-             if is_t s1 TCOMMA
-             then parse_enum_vals f (v :: acc) (adv s1)
-             else if is_t s1 TRPAREN
-                  then POk ((rev (v :: acc)), (adv s1))
-                  else perr s1)
-  and parse_comp_body fuel acc =
-    match fuel with
-    | O -> pfuel
-    | S f ->
-      (fun s ->
-        if is_t s TDECLARE
-        then pbind (parse_declare f) (fun d ->
-               pbind (expect TLINE_END) (fun _ ->
-                 pbind skip_nl (fun _ -> parse_comp_body f (d :: acc)))) s
-        else pbind (expect TENDTYPE) (fun _ -> pret (rev acc)) s)
-  and parse_type = function
-  | O -> pfuel
-  | S f ->
-    pbind pcur (fun t0 ->
-      pbind padv (fun _ ->
-        pbind skip_nl (fun _ s ->
-          if negb (is_t s TIDENTIFIER)
-          then perr s
-          else let id = cur s in
-               let s1 = adv s in
-               if negb (is_t s1 TEQUALS)
-               then if negb (is_t s1 TLINE_END)
-                    then perr s1
-                    else pbind skip_nl (fun _ ->
-                           pbind (parse_comp_body f []) (fun body ->
-                             pret (NCompDef (t0, id, body)))) (adv s1)
-               else let s2 = adv s1 in
-                    if is_t s2 TCARET
-                    then let s3 = adv s2 in
-                         if is_type_tok s3
-                         then POk ((NPtrDef (t0, id, (cur s3))), (adv s3))
-                         else perr s3
-                    else if is_t s2 TLPAREN
-                         then pbind (parse_enum_vals f []) (fun vs ->
-                                pret (NEnumDef (t0, id, vs))) (adv s2)
-                         else perr s2)))
-  and parse_if_tail fuel acc =
-    match fuel with
-    | O -> pfuel
-    | S f ->
-      (fun s ->
-        if is_t s TELSE
-        then let s1 = adv s in
-             if is_t s1 TIF
-             then if pedantic
-                  then PFail (LexPedantic, (cur s1), s1)
-                  else pbind (parse_eval f) (fun c ->
-                         pbind skip_nl (fun _ ->
-                           pbind (expect TTHEN) (fun _ ->
-                             pbind (parse_block0 f BOther) (fun b ->
-                               parse_if_tail f (((Some c), b) :: acc)))))
-                         (adv s1)
-             else pbind (parse_block0 f BOther) (fun b ->
-                    pbind (expect TENDIF) (fun _ ->
-                      pret (rev ((None, b) :: acc)))) s1
-        else pbind (expect TENDIF) (fun _ -> pret (rev acc)) s)
-  and parse_if = function
-  | O -> pfuel
-  | S f ->
-    pbind pcur (fun t0 ->
-      pbind padv (fun _ ->
-        pbind (parse_eval f) (fun c ->
-          pbind skip_nl (fun _ ->
-            pbind (expect TTHEN) (fun _ ->
-              pbind (parse_block0 f BOther) (fun b ->
-                pbind (parse_if_tail f (((Some c), b) :: [])) (fun comps ->
-                  pret (NIf (t0, comps)))))))))
-  and parse_case_clauses fuel acc =
-    match fuel with
-    | O -> pfuel
-    | S f ->
-      (fun s ->
-        if is_t s TENDCASE
-        then POk ((rev acc), (adv s))
-        else if is_t s TOTHERWISE
-             then pbind padv (fun _ ->
-                    pbind (expect TCOLON) (fun _ ->
-                      pbind (parse_block0 f BCase) (fun b ->
-                        pbind (expect TENDCASE) (fun _ ->
-                          pret (rev ((COther b) :: acc)))))) s
-             else pbind (parse_eval f) (fun e s1 ->
-                    if is_t s1 TTO
-                    then pbind padv (fun _ ->
-                           pbind (parse_eval f) (fun hi ->
-                             pbind (expect TCOLON) (fun _ ->
-                               pbind (parse_block0 f BCase) (fun b ->
-                                 parse_case_clauses f ((CRange (b, e,
-                                   hi)) :: acc))))) s1
-                    else pbind (expect TCOLON) (fun _ ->
-                           pbind (parse_block0 f BCase) (fun b ->
-                             parse_case_clauses f ((CEq (b, e)) :: acc))) s1)
-                    s)
-  and parse_case = function
-  | O -> pfuel
-  | S f ->
-    pbind pcur (fun t0 ->
-      pbind padv (fun _ ->
-        pbind (expect TOF) (fun _ s ->
-          if negb (is_t s TIDENTIFIER)
-          then perr s
-          else let id = cur s in
-               pbind padv (fun _ ->
-                 pbind skip_nl (fun _ ->
-                   pbind (parse_case_clauses f []) (fun cs ->
-                     pret (NCase (t0, (NAccess (id, (RSimple id))), cs))))) s)))
-  and parse_while = function
-  | O -> pfuel
-  | S f ->
-    pbind pcur (fun t0 ->
-      pbind padv (fun _ ->
-        pbind (parse_eval f) (fun c ->
-          pbind skip_nl (fun _ ->
-            pbind (fun s -> POk ((), (if is_t s TDO then adv s else s)))
-              (fun _ ->
-              pbind (parse_block0 f BOther) (fun b ->
-                pbind (expect TENDWHILE) (fun _ -> pret (NWhile (t0, c, b)))))))))
-  and parse_repeat = function
-  | O -> pfuel
-  | S f ->
-    pbind pcur (fun t0 ->
-      pbind padv (fun _ ->
-        pbind (parse_block0 f BOther) (fun b ->
-          pbind (expect TUNTIL) (fun _ ->
-            pbind (parse_eval f) (fun c -> pret (NRepeat (t0, c, b)))))))
-  and parse_for = function
-  | O -> pfuel
-  | S f ->
-    pbind pcur (fun t0 ->
-      pbind padv (fun _ s ->
-        if negb (is_t s TIDENTIFIER)
-        then perr s
-        else let it = cur s in
+        else let id = cur s in
              pbind padv (fun _ ->
-               pbind (expect TASSIGNMENT) (fun _ ->
-                 pbind (parse_arith f) (fun a ->
-                   pbind (expect TTO) (fun _ ->
-                     pbind (parse_arith f) (fun b ->
-                       pbind (fun s1 ->
-                         if is_t s1 TSTEP
-                         then pbind padv (fun _ ->
-                                pbind (parse_arith f) (fun e -> pret (Some e)))
-                                s1
-                         else POk (None, s1)) (fun st0 ->
-                         pbind (parse_block0 f BOther) (fun body ->
-                           pbind (expect TNEXT) (fun _ s2 ->
-                             if is_t s2 TIDENTIFIER
-                             then if str_eqb (cur s2).tval it.tval
-                                  then POk ((NFor (t0, it, a, b, st0, body)),
-                                         (adv s2))
-                                  else perr s2
-                             else POk ((NFor (t0, it, a, b, st0, body)), s2)))))))))
-               s))
-  and parse_params fuel a =
-    match fuel with
-    | O -> pfuel
-    | S f ->
-      (fun s ->
-        if is_t s TRPAREN
-        then if negb (Nat.eqb a.pa_tc (S O))
-             then perr s
-             else POk ({ pa_names = a.pa_names; pa_types = a.pa_types;
-                    pa_pass = (app a.pa_pass (replicate a.pa_pc a.pa_byref));
-                    pa_byref = a.pa_byref; pa_tc = a.pa_tc; pa_pc =
-                    a.pa_pc }, (adv s))
-        else let comma_ok =
-               match a.pa_names with
-               | [] -> Some s
-               | _ :: _ -> if is_t s TCOMMA then Some (adv s) else None
-             in
-             (match comma_ok with
-              | Some s1 ->
-                let (a1, s2) =
-                  if (||) (is_t s1 TBYREF) (is_t s1 TBYVAL)
-                  then let cur_is_ref = is_t s1 TBYREF in
-                       if negb (eqb cur_is_ref a.pa_byref)
-                       then ({ pa_names = a.pa_names; pa_types = a.pa_types;
-                              pa_pass =
-                              (app a.pa_pass (replicate a.pa_pc a.pa_byref));
-                              pa_byref = (negb a.pa_byref); pa_tc = a.pa_tc;
-                              pa_pc = (S O) }, (adv s1))
-                       else ({ pa_names = a.pa_names; pa_types = a.pa_types;
-                              pa_pass = a.pa_pass; pa_byref = a.pa_byref;
-                              pa_tc = a.pa_tc; pa_pc = (S a.pa_pc) },
-                              (adv s1))
-                  else ({ pa_names = a.pa_names; pa_types = a.pa_types;
-                         pa_pass = a.pa_pass; pa_byref = a.pa_byref; pa_tc =
-                         a.pa_tc; pa_pc = (S a.pa_pc) }, s1)
-                in
-                if negb (is_t s2 TIDENTIFIER)
-                then perr s2
-                else let nm = (cur s2).tval in
-                     let s3 = adv s2 in
-                     if is_t s3 TCOLON
-                     then let s4 = adv s3 in
-                          if negb (is_type_tok s4)
-                          then perr s4
-                          else let ty = cur s4 in
-                               parse_params f { pa_names =
-                                 (app a1.pa_names (nm :: [])); pa_types =
-                                 (app a1.pa_types (replicate a1.pa_tc ty));
-                                 pa_pass = a1.pa_pass; pa_byref =
-                                 a1.pa_byref; pa_tc = (S O); pa_pc =
-                                 a1.pa_pc } (adv s4)
-                     else if is_t s3 TCOMMA
-                          then parse_params f { pa_names =
-                                 (app a1.pa_names (nm :: [])); pa_types =
-                                 a1.pa_types; pa_pass = a1.pa_pass;
-                                 pa_byref = a1.pa_byref; pa_tc = (S
-                                 a1.pa_tc); pa_pc = a1.pa_pc } s3
-                          else perr s3
-              | None -> perr s))
-  and parse_paramlist = function
-  | O -> pfuel
-  | S f ->
-    (fun s ->
-      if is_t s TLPAREN
-      then pbind
-             (parse_params f { pa_names = []; pa_types = []; pa_pass = [];
-               pa_byref = false; pa_tc = (S O); pa_pc = O }) (fun a ->
-             pret (combine (combine a.pa_names a.pa_types) a.pa_pass)) 
-             (adv s)
-      else POk ([], s))
-  and parse_procedure = function
-  | O -> pfuel
-  | S f ->
-    pbind pcur (fun t0 ->
-      pbind padv (fun _ s ->
-        if negb (is_t s TIDENTIFIER)
-        then perr s
-        else let nm = (cur s).tval in
-             pbind padv (fun _ ->
-               pbind (parse_paramlist f) (fun ps ->
-                 pbind (parse_block0 f BOther) (fun b ->
-                   pbind (expect TENDPROCEDURE) (fun _ ->
-                     pret (NProc (t0, nm, ps, b)))))) s))
-  and parse_function = function
-  | O -> pfuel
-  | S f ->
-    pbind pcur (fun t0 ->
-      pbind padv (fun _ s ->
-        if negb (is_t s TIDENTIFIER)
-        then perr s
-        else let nm = (cur s).tval in
-             pbind padv (fun _ ->
-               pbind (parse_paramlist f) (fun ps ->
-                 pbind skip_nl (fun _ ->
-                   pbind (expect TRETURNS) (fun _ s1 ->
-                     if negb (is_type_tok s1)
-                     then perr s1
-                     else let rt = cur s1 in
-                          pbind padv (fun _ ->
-                            pbind (parse_block0 f BOther) (fun b ->
-                              pbind (expect TENDFUNCTION) (fun _ ->
-                                pret (NFunc (t0, nm, ps, b, rt))))) s1)))) s))
-  and parse_call = function
-  | O -> pfuel
-  | S f ->
-    pbind pcur (fun t0 ->
-      pbind padv (fun _ s ->
-        if negb (is_t s TIDENTIFIER)
-        then perr s
-        else let nm = (cur s).tval in
-             let s1 = adv s in
-             if is_t s1 TLPAREN
-             then pbind (parse_arglist f) (fun args ->
-                    pret (NCall (t0, nm, args))) (adv s1)
-             else POk ((NCall (t0, nm, [])), s1)))
-  and parse_output_tail fuel acc =
-    match fuel with
-    | O -> pfuel
-    | S f ->
-      (fun s ->
-        if is_t s TCOMMA
-        then pbind padv (fun _ ->
-               pbind (parse_eval f) (fun e -> parse_output_tail f (e :: acc)))
-               s
-        else POk ((rev acc), s))
-  and parse_statement = function
-  | O -> pfuel
-  | S f ->
-    (fun s ->
-      let t0 = cur s in
-      (match t0.tt with
-       | TDECLARE -> parse_declare f s
-       | TCONSTANT -> parse_const f s
-       | TTYPE -> parse_type f s
-       | TIF -> parse_if f s
-       | TCASE -> parse_case f s
-       | TWHILE -> parse_while f s
-       | TREPEAT -> parse_repeat f s
-       | TFOR -> parse_for f s
-       | TBREAK -> POk ((NBreak t0), (adv s))
-       | TCONTINUE -> POk ((NContinue t0), (adv s))
-       | TCALL -> parse_call f s
-       | TRETURN ->
-         pbind padv (fun _ ->
-           pbind (parse_eval f) (fun e -> pret (NReturn (t0, e)))) s
-       | TOUTPUT ->
-         pbind padv (fun _ ->
-           pbind (parse_eval f) (fun e ->
-             pbind (parse_output_tail f (e :: [])) (fun es ->
-               pret (NOutput (t0, es))))) s
-       | TINPUT ->
-         pbind padv (fun _ s1 ->
+               pbind skip_nl (fun _ ->
+                 pbind (self.pr_parse_case_clauses []) (fun cs ->
+                   pret (NCase (t0, (NAccess (id, (RSimple id))), cs))))) s)))
+
+(** val parse_while_body : prs -> node p **)
+
+let parse_while_body self =
+  pbind pcur (fun t0 ->
+    pbind padv (fun _ ->
+      pbind self.pr_parse_eval (fun c ->
+        pbind skip_nl (fun _ ->
+          pbind (fun s -> POk ((), (if is_t s TDO then adv s else s)))
+            (fun _ ->
+            pbind (self.pr_parse_block BOther) (fun b ->
+              pbind (expect TENDWHILE) (fun _ -> pret (NWhile (t0, c, b)))))))))
+
+(** val parse_repeat_body : prs -> node p **)
+
+let parse_repeat_body self =
+  pbind pcur (fun t0 ->
+    pbind padv (fun _ ->
+      pbind (self.pr_parse_block BOther) (fun b ->
+        pbind (expect TUNTIL) (fun _ ->
+          pbind self.pr_parse_eval (fun c -> pret (NRepeat (t0, c, b)))))))
+
+(** val parse_for_body : prs -> node p **)
+
+let parse_for_body self =
+  pbind pcur (fun t0 ->
+    pbind padv (fun _ s ->
+      if negb (is_t s TIDENTIFIER)
+      then perr s
+      else let it = cur s in
+           pbind padv (fun _ ->
+             pbind (expect TASSIGNMENT) (fun _ ->
+               pbind self.pr_parse_arith (fun a ->
+                 pbind (expect TTO) (fun _ ->
+                   pbind self.pr_parse_arith (fun b ->
+                     pbind (fun s1 ->
+                       if is_t s1 TSTEP
+                       then pbind padv (fun _ ->
+                              pbind self.pr_parse_arith (fun e ->
+                                pret (Some e))) s1
+                       else POk (None, s1)) (fun st0 ->
+                       pbind (self.pr_parse_block BOther) (fun body ->
+                         pbind (expect TNEXT) (fun _ s2 ->
+                           if is_t s2 TIDENTIFIER
+                           then if str_eqb (cur s2).tval it.tval
+                                then POk ((NFor (t0, it, a, b, st0, body)),
+                                       (adv s2))
+                                else perr s2
+                           else POk ((NFor (t0, it, a, b, st0, body)), s2)))))))))
+             s))
+
+(** val parse_params_body : prs -> pacc -> pacc p **)
+
+let parse_params_body self a s =
+  if is_t s TRPAREN
+  then if negb (Nat.eqb a.pa_tc (S O))
+       then perr s
+       else POk ({ pa_names = a.pa_names; pa_types = a.pa_types; pa_pass =
+              (app a.pa_pass (replicate a.pa_pc a.pa_byref)); pa_byref =
+              a.pa_byref; pa_tc = a.pa_tc; pa_pc = a.pa_pc }, (adv s))
+  else let comma_ok =
+         match a.pa_names with
+         | [] -> Some s
+         | _ :: _ -> if is_t s TCOMMA then Some (adv s) else None
+       in
+       (match comma_ok with
+        | Some s1 ->
+          let (a1, s2) =
+            if (||) (is_t s1 TBYREF) (is_t s1 TBYVAL)
+            then let cur_is_ref = is_t s1 TBYREF in
+                 if negb (eqb cur_is_ref a.pa_byref)
+                 then ({ pa_names = a.pa_names; pa_types = a.pa_types;
+                        pa_pass =
+                        (app a.pa_pass (replicate a.pa_pc a.pa_byref));
+                        pa_byref = (negb a.pa_byref); pa_tc = a.pa_tc;
+                        pa_pc = (S O) }, (adv s1))
+                 else ({ pa_names = a.pa_names; pa_types = a.pa_types;
+                        pa_pass = a.pa_pass; pa_byref = a.pa_byref; pa_tc =
+                        a.pa_tc; pa_pc = (S a.pa_pc) }, (adv s1))
+            else ({ pa_names = a.pa_names; pa_types = a.pa_types; pa_pass =
+                   a.pa_pass; pa_byref = a.pa_byref; pa_tc = a.pa_tc; pa_pc =
+                   (S a.pa_pc) }, s1)
+          in
+          if negb (is_t s2 TIDENTIFIER)
+          then perr s2
+          else let nm = (cur s2).tval in
+               let s3 = adv s2 in
+               if is_t s3 TCOLON
+               then let s4 = adv s3 in
+                    if negb (is_type_tok s4)
+                    then perr s4
+                    else let ty = cur s4 in
+                         self.pr_parse_params { pa_names =
+                           (app a1.pa_names (nm :: [])); pa_types =
+                           (app a1.pa_types (replicate a1.pa_tc ty));
+                           pa_pass = a1.pa_pass; pa_byref = a1.pa_byref;
+                           pa_tc = (S O); pa_pc = a1.pa_pc } (adv s4)
+               else if is_t s3 TCOMMA
+                    then self.pr_parse_params { pa_names =
+                           (app a1.pa_names (nm :: [])); pa_types =
+                           a1.pa_types; pa_pass = a1.pa_pass; pa_byref =
+                           a1.pa_byref; pa_tc = (S a1.pa_tc); pa_pc =
+                           a1.pa_pc } s3
+                    else perr s3
+        | None -> perr s)
+
+(** val parse_paramlist_body : prs -> ((str * token) * bool) list p **)
+
+let parse_paramlist_body self s =
+  if is_t s TLPAREN
+  then pbind
+         (self.pr_parse_params { pa_names = []; pa_types = []; pa_pass = [];
+           pa_byref = false; pa_tc = (S O); pa_pc = O }) (fun a ->
+         pret (combine (combine a.pa_names a.pa_types) a.pa_pass)) (adv s)
+  else POk ([], s)
+
+(** val parse_procedure_body : prs -> node p **)
+
+let parse_procedure_body self =
+  pbind pcur (fun t0 ->
+    pbind padv (fun _ s ->
+      if negb (is_t s TIDENTIFIER)
+      then perr s
+      else let nm = (cur s).tval in
+           pbind padv (fun _ ->
+             pbind self.pr_parse_paramlist (fun ps ->
+               pbind (self.pr_parse_block BOther) (fun b ->
+                 pbind (expect TENDPROCEDURE) (fun _ ->
+                   pret (NProc (t0, nm, ps, b)))))) s))
+
+(** val parse_function_body : prs -> node p **)
+
+let parse_function_body self =
+  pbind pcur (fun t0 ->
+    pbind padv (fun _ s ->
+      if negb (is_t s TIDENTIFIER)
+      then perr s
+      else let nm = (cur s).tval in
+           pbind padv (fun _ ->
+             pbind self.pr_parse_paramlist (fun ps ->
+               pbind skip_nl (fun _ ->
+                 pbind (expect TRETURNS) (fun _ s1 ->
+                   if negb (is_type_tok s1)
+                   then perr s1
+                   else let rt = cur s1 in
+                        pbind padv (fun _ ->
+                          pbind (self.pr_parse_block BOther) (fun b ->
+                            pbind (expect TENDFUNCTION) (fun _ ->
+                              pret (NFunc (t0, nm, ps, b, rt))))) s1)))) s))
+
+(** val parse_call_body : prs -> node p **)
+
+let parse_call_body self =
+  pbind pcur (fun t0 ->
+    pbind padv (fun _ s ->
+      if negb (is_t s TIDENTIFIER)
+      then perr s
+      else let nm = (cur s).tval in
+           let s1 = adv s in
+           if is_t s1 TLPAREN
+           then pbind self.pr_parse_arglist (fun args ->
+                  pret (NCall (t0, nm, args))) (adv s1)
+           else POk ((NCall (t0, nm, [])), s1)))
+
+(** val parse_output_tail_body : prs -> node list -> node list p **)
+
+let parse_output_tail_body self acc s =
+  if is_t s TCOMMA
+  then pbind padv (fun _ ->
+         pbind self.pr_parse_eval (fun e ->
+           self.pr_parse_output_tail (e :: acc))) s
+  else POk ((rev acc), s)
+
+(** val parse_statement_body : prs -> node p **)
+
+let parse_statement_body self s =
+  let t0 = cur s in
+  (match t0.tt with
+   | TDECLARE -> self.pr_parse_declare s
+   | TCONSTANT -> self.pr_parse_const s
+   | TTYPE -> self.pr_parse_type s
+   | TIF -> self.pr_parse_if s
+   | TCASE -> self.pr_parse_case s
+   | TWHILE -> self.pr_parse_while s
+   | TREPEAT -> self.pr_parse_repeat s
+   | TFOR -> self.pr_parse_for s
+   | TBREAK -> POk ((NBreak t0), (adv s))
+   | TCONTINUE -> POk ((NContinue t0), (adv s))
+   | TCALL -> self.pr_parse_call s
+   | TRETURN ->
+     pbind padv (fun _ ->
+       pbind self.pr_parse_eval (fun e -> pret (NReturn (t0, e)))) s
+   | TOUTPUT ->
+     pbind padv (fun _ ->
+       pbind self.pr_parse_eval (fun e ->
+         pbind (self.pr_parse_output_tail (e :: [])) (fun es ->
+           pret (NOutput (t0, es))))) s
+   | TINPUT ->
+     pbind padv (fun _ s1 ->
+       if is_t s1 TIDENTIFIER
+       then pbind self.pr_parse_resolver (fun r -> pret (NInput (t0, r))) s1
+       else perr s1) s
+   | TOPENFILE ->
+     pbind padv (fun _ ->
+       pbind self.pr_parse_strexpr (fun fn ->
+         pbind (expect TFOR) (fun _ s1 ->
+           match (cur s1).tt with
+           | TREAD -> POk ((NOpenFile (t0, fn, FRead)), (adv s1))
+           | TWRITE -> POk ((NOpenFile (t0, fn, FWrite)), (adv s1))
+           | TAPPEND -> POk ((NOpenFile (t0, fn, FAppend)), (adv s1))
+           | TRANDOM -> POk ((NOpenFile (t0, fn, FRandom)), (adv s1))
+           | _ -> perr s1))) s
+   | TREADFILE ->
+     pbind padv (fun _ ->
+       pbind self.pr_parse_strexpr (fun fn ->
+         pbind (expect TCOMMA) (fun _ s1 ->
            if is_t s1 TIDENTIFIER
-           then pbind (parse_resolver f) (fun r -> pret (NInput (t0, r))) s1
-           else perr s1) s
-       | TOPENFILE ->
-         pbind padv (fun _ ->
-           pbind (parse_strexpr f) (fun fn ->
-             pbind (expect TFOR) (fun _ s1 ->
-               match (cur s1).tt with
-               | TREAD -> POk ((NOpenFile (t0, fn, FRead)), (adv s1))
-               | TWRITE -> POk ((NOpenFile (t0, fn, FWrite)), (adv s1))
-               | TAPPEND -> POk ((NOpenFile (t0, fn, FAppend)), (adv s1))
-               | TRANDOM -> POk ((NOpenFile (t0, fn, FRandom)), (adv s1))
-               | _ -> perr s1))) s
-       | TREADFILE ->
-         pbind padv (fun _ ->
-           pbind (parse_strexpr f) (fun fn ->
-             pbind (expect TCOMMA) (fun _ s1 ->
-               if is_t s1 TIDENTIFIER
-               then POk ((NReadFile (t0, fn, (cur s1))), (adv s1))
-               else perr s1))) s
-       | TWRITEFILE ->
-         pbind padv (fun _ ->
-           pbind (parse_strexpr f) (fun fn ->
-             pbind (expect TCOMMA) (fun _ ->
-               pbind (parse_eval f) (fun d -> pret (NWriteFile (t0, fn, d))))))
-           s
-       | TCLOSEFILE ->
-         pbind padv (fun _ ->
-           pbind (parse_strexpr f) (fun fn -> pret (NCloseFile (t0, fn)))) s
-       | TREAD ->
-         pbind padv (fun _ s1 ->
+           then POk ((NReadFile (t0, fn, (cur s1))), (adv s1))
+           else perr s1))) s
+   | TWRITEFILE ->
+     pbind padv (fun _ ->
+       pbind self.pr_parse_strexpr (fun fn ->
+         pbind (expect TCOMMA) (fun _ ->
+           pbind self.pr_parse_eval (fun d -> pret (NWriteFile (t0, fn, d))))))
+       s
+   | TCLOSEFILE ->
+     pbind padv (fun _ ->
+       pbind self.pr_parse_strexpr (fun fn -> pret (NCloseFile (t0, fn)))) s
+   | TREAD ->
+     pbind padv (fun _ s1 ->
+       if is_t s1 TIDENTIFIER
+       then pbind self.pr_parse_resolver (fun r -> pret (NInput (t0, r))) s1
+       else perr s1) s
+   | TSEEK ->
+     pbind padv (fun _ ->
+       pbind self.pr_parse_strexpr (fun fn ->
+         pbind (expect TCOMMA) (fun _ ->
+           pbind self.pr_parse_eval (fun a -> pret (NSeek (t0, fn, a)))))) s
+   | TGETRECORD ->
+     pbind padv (fun _ ->
+       pbind self.pr_parse_strexpr (fun fn ->
+         pbind (expect TCOMMA) (fun _ s1 ->
            if is_t s1 TIDENTIFIER
-           then pbind (parse_resolver f) (fun r -> pret (NInput (t0, r))) s1
-           else perr s1) s
-       | TSEEK ->
-         pbind padv (fun _ ->
-           pbind (parse_strexpr f) (fun fn ->
-             pbind (expect TCOMMA) (fun _ ->
-               pbind (parse_eval f) (fun a -> pret (NSeek (t0, fn, a)))))) s
-       | TGETRECORD ->
-         pbind padv (fun _ ->
-           pbind (parse_strexpr f) (fun fn ->
-             pbind (expect TCOMMA) (fun _ s1 ->
-               if is_t s1 TIDENTIFIER
-               then POk ((NGetRecord (t0, fn, (cur s1))), (adv s1))
-               else perr s1))) s
-       | TPUTRECORD ->
-         pbind padv (fun _ ->
-           pbind (parse_strexpr f) (fun fn ->
-             pbind (expect TCOMMA) (fun _ s1 ->
-               if is_t s1 TIDENTIFIER
-               then POk ((NPutRecord (t0, fn, (cur s1))), (adv s1))
-               else perr s1))) s
-       | _ -> parse_eval f s))
-  and parse_block_loop fuel bt acc =
-    match fuel with
-    | O -> pfuel
-    | S f ->
-      pbind skip_nl (fun _ s ->
-        let t0 = cur s in
-        if block_terminator t0.tt
-        then POk ((rev acc), s)
-        else if match bt with
-                | BCase ->
-                  (&&) (negb (is_t s TDECLARE)) (colon_on_line (tl s.p_toks))
-                | _ -> false
-             then POk ((rev acc), s)
-             else let pn =
-                    match t0.tt with
-                    | TPROCEDURE ->
-                      (match bt with
-                       | BMain -> parse_procedure f
-                       | _ -> perr)
-                    | TFUNCTION ->
-                      (match bt with
-                       | BMain -> parse_function f
-                       | _ -> perr)
-                    | _ ->
-                      pbind (parse_statement f) (fun n0 s1 ->
-                        match n0 with
-                        | NCmp (ct, l, _) ->
-                          (match l with
-                           | NAccess (_, _) ->
-                             POk (n0, { p_toks = s1.p_toks; p_warns =
-                               ((ct.tline, ct.tcol) :: s1.p_warns) })
-                           | _ -> POk (n0, s1))
-                        | _ -> POk (n0, s1))
-                  in
-                  pbind pn (fun n0 s1 ->
-                    if (||) (is_t s1 TLINE_END) (is_t s1 TEXPRESSION_END)
-                    then parse_block_loop f bt (n0 :: acc) s1
-                    else perr s1) s)
-  and parse_block0 fuel bt =
-    match fuel with
-    | O -> pfuel
-    | S f -> parse_block_loop f bt []
-  in parse_block0
+           then POk ((NGetRecord (t0, fn, (cur s1))), (adv s1))
+           else perr s1))) s
+   | TPUTRECORD ->
+     pbind padv (fun _ ->
+       pbind self.pr_parse_strexpr (fun fn ->
+         pbind (expect TCOMMA) (fun _ s1 ->
+           if is_t s1 TIDENTIFIER
+           then POk ((NPutRecord (t0, fn, (cur s1))), (adv s1))
+           else perr s1))) s
+   | _ -> self.pr_parse_eval s)
+
+(** val parse_block_loop_body : prs -> btype -> node list -> node list p **)
+
+let parse_block_loop_body self bt acc =
+  pbind skip_nl (fun _ s ->
+    let t0 = cur s in
+    if block_terminator t0.tt
+    then POk ((rev acc), s)
+    else if match bt with
+            | BCase ->
+              (&&) (negb (is_t s TDECLARE)) (colon_on_line (tl s.p_toks))
+            | _ -> false
+         then POk ((rev acc), s)
+         else let pn =
+                match t0.tt with
+                | TPROCEDURE ->
+                  (match bt with
+                   | BMain -> self.pr_parse_procedure
+                   | _ -> perr)
+                | TFUNCTION ->
+                  (match bt with
+                   | BMain -> self.pr_parse_function
+                   | _ -> perr)
+                | _ ->
+                  pbind self.pr_parse_statement (fun n0 s1 ->
+                    match n0 with
+                    | NCmp (ct, l, _) ->
+                      (match l with
+                       | NAccess (_, _) ->
+                         POk (n0, { p_toks = s1.p_toks; p_warns = ((ct.tline,
+                           ct.tcol) :: s1.p_warns) })
+                       | _ -> POk (n0, s1))
+                    | _ -> POk (n0, s1))
+              in
+              pbind pn (fun n0 s1 ->
+                if (||) (is_t s1 TLINE_END) (is_t s1 TEXPRESSION_END)
+                then self.pr_parse_block_loop bt (n0 :: acc) s1
+                else perr s1) s)
+
+(** val parse_block_body : prs -> btype -> node list p **)
+
+let parse_block_body self bt =
+  self.pr_parse_block_loop bt []
+
+(** val prs_zero : prs **)
+
+let prs_zero =
+  { pr_fuel = O; pr_parse_eval = pfuel; pr_parse_logical = pfuel;
+    pr_parse_comparison = pfuel; pr_parse_strexpr = pfuel; pr_parse_arith =
+    pfuel; pr_parse_term = pfuel; pr_parse_factor = pfuel; pr_parse_atom =
+    pfuel; pr_parse_moddiv = pfuel; pr_parse_cast = pfuel; pr_parse_args =
+    (fun _ -> pfuel); pr_parse_arglist = pfuel; pr_parse_fncall = pfuel;
+    pr_parse_indices = (fun _ -> pfuel); pr_parse_resolver_tail = (fun _ ->
+    pfuel); pr_parse_resolver = pfuel; pr_parse_ids = (fun _ -> pfuel);
+    pr_parse_bounds = (fun _ -> pfuel); pr_parse_declare = pfuel;
+    pr_parse_const = pfuel; pr_parse_enum_vals = (fun _ -> pfuel);
+    pr_parse_comp_body = (fun _ -> pfuel); pr_parse_type = pfuel;
+    pr_parse_if_tail = (fun _ -> pfuel); pr_parse_if = pfuel;
+    pr_parse_case_clauses = (fun _ -> pfuel); pr_parse_case = pfuel;
+    pr_parse_while = pfuel; pr_parse_repeat = pfuel; pr_parse_for = pfuel;
+    pr_parse_params = (fun _ -> pfuel); pr_parse_paramlist = pfuel;
+    pr_parse_procedure = pfuel; pr_parse_function = pfuel; pr_parse_call =
+    pfuel; pr_parse_output_tail = (fun _ -> pfuel); pr_parse_statement =
+    pfuel; pr_parse_block_loop = (fun _ _ -> pfuel); pr_parse_block =
+    (fun _ -> pfuel) }
+
+(** val prs_step : bool -> prs -> prs **)
+
+let prs_step pedantic self =
+  { pr_fuel = (S self.pr_fuel); pr_parse_eval = (parse_eval_body self);
+    pr_parse_logical = (parse_logical_body self); pr_parse_comparison =
+    (parse_comparison_body self); pr_parse_strexpr =
+    (parse_strexpr_body self); pr_parse_arith = (parse_arith_body self);
+    pr_parse_term = (parse_term_body self); pr_parse_factor =
+    (parse_factor_body self); pr_parse_atom = (parse_atom_body self);
+    pr_parse_moddiv = (parse_moddiv_body self); pr_parse_cast =
+    (parse_cast_body pedantic self); pr_parse_args = (parse_args_body self);
+    pr_parse_arglist = (parse_arglist_body self); pr_parse_fncall =
+    (parse_fncall_body self); pr_parse_indices = (parse_indices_body self);
+    pr_parse_resolver_tail = (parse_resolver_tail_body self);
+    pr_parse_resolver = (parse_resolver_body self); pr_parse_ids =
+    (parse_ids_body self); pr_parse_bounds = (parse_bounds_body self);
+    pr_parse_declare = (parse_declare_body self); pr_parse_const =
+    (parse_const_body self); pr_parse_enum_vals =
+    (parse_enum_vals_body self); pr_parse_comp_body =
+    (parse_comp_body_body self); pr_parse_type = (parse_type_body self);
+    pr_parse_if_tail = (parse_if_tail_body pedantic self); pr_parse_if =
+    (parse_if_body self); pr_parse_case_clauses =
+    (parse_case_clauses_body self); pr_parse_case = (parse_case_body self);
+    pr_parse_while = (parse_while_body self); pr_parse_repeat =
+    (parse_repeat_body self); pr_parse_for = (parse_for_body self);
+    pr_parse_params = (parse_params_body self); pr_parse_paramlist =
+    (parse_paramlist_body self); pr_parse_procedure =
+    (parse_procedure_body self); pr_parse_function =
+    (parse_function_body self); pr_parse_call = (parse_call_body self);
+    pr_parse_output_tail = (parse_output_tail_body self);
+    pr_parse_statement = (parse_statement_body self); pr_parse_block_loop =
+    (parse_block_loop_body self); pr_parse_block = (parse_block_body self) }
+
+(** val prs_at : bool -> nat -> prs **)
+
+let rec prs_at pedantic = function
+| O -> prs_zero
+| S f -> prs_step pedantic (prs_at pedantic f)
+
+(** val parse_block : bool -> nat -> btype -> node list p **)
+
+let parse_block pedantic fuel =
+  (prs_at pedantic fuel).pr_parse_block
 
 (** val parse_fuel : token list -> nat **)
 
@@ -8625,1108 +8699,1133 @@ let expect_holder_var t0 c = function
 | HVar id -> ret id
 | HArr _ -> array_direct_error t0 c
 
-(** val run_block : bool -> bool -> limits -> nat -> block -> n -> unit m **)
+type evs = { ev_fuel : nat; ev_eval : (node -> n -> result m);
+             ev_resolve : (resolver -> n -> holder m);
+             ev_case_equals : (result -> node -> n -> bool m);
+             ev_case_range : (result -> node -> node -> n -> bool m);
+             ev_run_block : (block -> n -> unit m);
+             ev_new_var : (str -> dtype -> bool -> n -> n m);
+             ev_new_array : (str -> dtype -> dim list -> n -> n m);
+             ev_bind_args : (token -> ((str * dtype) * bool) list -> node
+                            list -> result list -> n -> n -> unit m);
+             ev_call_procedure : (token -> str -> node list -> n -> result m);
+             ev_call_function : (token -> node list -> n -> result m) }
 
-let run_block pedantic repl lim =
-  let rec eval fuel n0 c =
-    match fuel with
-    | O -> failm FFuel
-    | S f ->
-      (match n0 with
-       | NInt t0 -> ret (res_of KInt (PInt (digits_to_z t0.tval)))
-       | NReal t0 ->
-         (match stod_literal t0.tval with
-          | Some r -> ret (res_of KReal (PReal r))
-          | None ->
-            crash
-              ('R'::('e'::('a'::('l'::('N'::('o'::('d'::('e'::(':'::(' '::('s'::('t'::('o'::('d'::(' '::('o'::('u'::('t'::('_'::('o'::('f'::('_'::('r'::('a'::('n'::('g'::('e'::[]))))))))))))))))))))))))))))
-       | NBool t0 ->
-         (match t0.tt with
-          | TTRUE -> ret (res_of KBool (PBool true))
-          | TFALSE -> ret (res_of KBool (PBool false))
-          | _ ->
-            crash
-              ('c'::('o'::('m'::('p'::('a'::('r'::('i'::('s'::('o'::('n'::('.'::('c'::('p'::('p'::(' '::('B'::('o'::('o'::('l'::('e'::('a'::('n'::('N'::('o'::('d'::('e'::(' '::('a'::('b'::('o'::('r'::('t'::[])))))))))))))))))))))))))))))))))
-       | NChar t0 ->
-         (match t0.tval with
-          | [] -> ret (res_of KChar (PChar ch_nul))
-          | ch :: _ -> ret (res_of KChar (PChar ch)))
-       | NStr t0 -> ret (res_of KStr (PStr t0.tval))
-       | NDate t0 ->
-         let parts =
-           let rec split s cur0 acc =
-             match s with
-             | [] -> rev ((rev cur0) :: acc)
-             | ch :: r ->
-               if aeqb ch '/'
-               then split r [] ((rev cur0) :: acc)
-               else split r (ch :: cur0) acc
-           in split t0.tval [] []
-         in
-         (match parts with
-          | [] ->
-            crash
-              ('a'::('r'::('i'::('t'::('h'::('m'::('e'::('t'::('i'::('c'::('.'::('c'::('p'::('p'::(' '::('m'::('a'::('k'::('e'::('D'::('a'::('t'::('e'::(':'::(' '::('s'::('t'::('o'::('u'::('l'::(' '::('i'::('n'::('v'::('a'::('l'::('i'::('d'::('_'::('a'::('r'::('g'::('u'::('m'::('e'::('n'::('t'::[])))))))))))))))))))))))))))))))))))))))))))))))
-          | ds :: l ->
-            (match l with
-             | [] ->
-               crash
-                 ('a'::('r'::('i'::('t'::('h'::('m'::('e'::('t'::('i'::('c'::('.'::('c'::('p'::('p'::(' '::('m'::('a'::('k'::('e'::('D'::('a'::('t'::('e'::(':'::(' '::('s'::('t'::('o'::('u'::('l'::(' '::('i'::('n'::('v'::('a'::('l'::('i'::('d'::('_'::('a'::('r'::('g'::('u'::('m'::('e'::('n'::('t'::[])))))))))))))))))))))))))))))))))))))))))))))))
-             | ms :: l0 ->
-               (match l0 with
-                | [] ->
-                  crash
-                    ('a'::('r'::('i'::('t'::('h'::('m'::('e'::('t'::('i'::('c'::('.'::('c'::('p'::('p'::(' '::('m'::('a'::('k'::('e'::('D'::('a'::('t'::('e'::(':'::(' '::('s'::('t'::('o'::('u'::('l'::(' '::('i'::('n'::('v'::('a'::('l'::('i'::('d'::('_'::('a'::('r'::('g'::('u'::('m'::('e'::('n'::('t'::[])))))))))))))))))))))))))))))))))))))))))))))))
-                | ys :: l1 ->
-                  (match l1 with
-                   | [] ->
-                     if (&&)
-                          ((&&)
-                            ((&&) (forallb is_digit (app ds (app ms ys)))
-                              (negb
-                                (match ds with
-                                 | [] -> true
-                                 | _ :: _ -> false)))
-                            (negb
-                              (match ms with
-                               | [] -> true
-                               | _ :: _ -> false)))
-                          (negb (match ys with
-                                 | [] -> true
-                                 | _ :: _ -> false))
-                     then let (p0, y) =
-                            let d = digits_to_z ds in
-                            let m0 = digits_to_z ms in
-                            let y = digits_to_z ys in
-                            if (||) ((||) (Z.leb two64 d) (Z.leb two64 m0))
-                                 (Z.leb two64 y)
-                            then ((Z0, Z0), Z0)
-                            else date_literal_components d m0 y
-                          in
-                          let (d, m0) = p0 in
-                          if ymd_ok d m0 y
-                          then ret (res_of KDate (PDate (d, m0, y)))
-                          else rt_error t0 c
-                     else crash
-                            ('a'::('r'::('i'::('t'::('h'::('m'::('e'::('t'::('i'::('c'::('.'::('c'::('p'::('p'::(' '::('m'::('a'::('k'::('e'::('D'::('a'::('t'::('e'::(':'::(' '::('s'::('t'::('o'::('u'::('l'::(' '::('i'::('n'::('v'::('a'::('l'::('i'::('d'::('_'::('a'::('r'::('g'::('u'::('m'::('e'::('n'::('t'::[])))))))))))))))))))))))))))))))))))))))))))))))
-                   | _ :: _ ->
-                     crash
-                       ('a'::('r'::('i'::('t'::('h'::('m'::('e'::('t'::('i'::('c'::('.'::('c'::('p'::('p'::(' '::('m'::('a'::('k'::('e'::('D'::('a'::('t'::('e'::(':'::(' '::('s'::('t'::('o'::('u'::('l'::(' '::('i'::('n'::('v'::('a'::('l'::('i'::('d'::('_'::('a'::('r'::('g'::('u'::('m'::('e'::('n'::('t'::[])))))))))))))))))))))))))))))))))))))))))))))))))))
-       | NNeg (t0, e) ->
-         bind (eval f e c) (fun r ->
-           if dt_is r.r_type KInt
-           then bind (as_int r) (fun z0 ->
-                  ret (res_of KInt (PInt (wrap64 (Z.mul z0 (Zneg XH))))))
-           else if dt_is r.r_type KReal
-                then bind (as_real r) (fun x ->
-                       ret
-                         (res_of KReal (PReal (rmul x (real_of_z (Zneg XH))))))
-                else rt_error t0 c)
-       | NArith (t0, l, r) ->
-         bind (eval f l c) (fun lr0 ->
-           bind (eval f r c) (fun rr0 -> eval_arith t0 c lr0 rr0))
-       | NCmp (t0, l, r) ->
-         bind (eval f l c) (fun lr0 ->
-           bind (eval f r c) (fun rr0 -> eval_cmp t0 c lr0 rr0))
-       | NLogic (t0, l, r) ->
-         bind (eval f l c) (fun lr ->
-           let is_and = tt_eqb t0.tt TAND in
-           bind
-             (if (&&) is_and (dt_is lr.r_type KBool)
-              then bind (as_bool lr) (fun b -> ret (negb b))
-              else ret false) (fun lfalse ->
-             if lfalse
-             then ret (res_of KBool (PBool false))
-             else bind (eval f r c) (fun rr ->
-                    if (||) (negb (dt_is lr.r_type KBool))
-                         (negb (dt_is rr.r_type KBool))
-                    then rt_error t0 c
-                    else bind (as_bool lr) (fun a ->
-                           bind (as_bool rr) (fun b ->
-                             match t0.tt with
-                             | TAND -> ret (res_of KBool (PBool ((&&) a b)))
-                             | TOR -> ret (res_of KBool (PBool ((||) a b)))
-                             | _ ->
-                               crash
-                                 ('l'::('o'::('g'::('i'::('c'::('.'::('c'::('p'::('p'::(' '::('o'::('p'::('e'::('r'::('a'::('t'::('o'::('r'::(' '::('a'::('b'::('o'::('r'::('t'::[])))))))))))))))))))))))))))))
-       | NNot (t0, e) ->
-         bind (eval f e c) (fun r ->
-           if negb (dt_is r.r_type KBool)
-           then rt_error t0 c
-           else bind (as_bool r) (fun b ->
-                  ret (res_of KBool (PBool (negb b)))))
-       | NCat (t0, l, r) ->
-         bind (eval f l c) (fun lr ->
-           bind (eval f r c) (fun rr ->
-             if (||) (dt_is lr.r_type KNone) (dt_is rr.r_type KNone)
-             then rt_error t0 c
-             else bind (as_payload lr) (fun a ->
-                    bind (as_payload rr) (fun b ->
-                      if (||) (negb (is_primitive a)) (negb (is_primitive b))
-                      then rt_error t0 c
-                      else bind (prim_to_string a) (fun sa ->
-                             bind (prim_to_string b) (fun sb ->
-                               bind
-                                 (check_strlen lim
-                                   (Z.add (slen sa) (slen sb)) t0 c)
-                                 (fun _ ->
-                                 ret (res_of KStr (PStr (app sa sb))))))))))
-       | NCast (t0, e, target) ->
-         bind (eval f e c) (fun v ->
-           if dt_is v.r_type KNone
-           then rt_error t0 c
-           else bind (as_payload v) (fun p0 ->
-                  if negb (is_primitive p0)
-                  then rt_error t0 c
-                  else if dt_is v.r_type target
-                       then ret v
-                       else if (&&)
-                                 ((&&) (dt_is v.r_type KDate)
-                                   (negb (dk_eqb target KInt)))
-                                 (negb (dk_eqb target KStr))
-                            then rt_error t0 c
-                            else bind (cast_prim t0 c p0 target) (fun p' ->
-                                   ret (res_of target p'))))
-       | NAccess (t0, r) ->
-         bind
-           (catch_cls (bind (resolve f r c) (fun x -> ret (Inl x)))
-             is_not_defined (fun fl ->
-             bind (get_enum_element c t0.tval true) (fun en ->
-               match en with
-               | Some ti -> ret (Inr ti)
-               | None -> failm fl))) (fun h ->
-           match h with
-           | Inl h0 ->
-             (match h0 with
-              | HVar id ->
-                bind (get_cell id) (fun cl ->
-                  if dt_is cl.c_type KNone
-                  then crash
-                         ('v'::('a'::('r'::('i'::('a'::('b'::('l'::('e'::('.'::('c'::('p'::('p'::(' '::('A'::('c'::('c'::('e'::('s'::('s'::('N'::('o'::('d'::('e'::(' '::('N'::('O'::('N'::('E'::(' '::('a'::('b'::('o'::('r'::('t'::[]))))))))))))))))))))))))))))))))))
-                  else bind (copy_val hfuel cl.c_val) (fun v ->
-                         ret { r_type = cl.c_type; r_val = (Some v) }))
-              | HArr _ -> array_direct_error t0 c)
-           | Inr p0 ->
-             let (tn, i) = p0 in
-             ret { r_type = { dk = KEnum; dname = (Some tn) }; r_val = (Some
-               (PEnum (tn, i))) })
-       | NAssign (t0, e, r) ->
-         bind
-           (match e with
-            | NAccess (_, _) ->
-              catch_cls (bind (eval f e c) (fun x -> ret (Some x)))
-                (is_array_direct c) (fun _ -> ret None)
-            | _ -> bind (eval f e c) (fun x -> ret (Some x))) (fun vr ->
-           match vr with
-           | Some v ->
-             if dt_is v.r_type KNone
-             then rt_error t0 c
-             else bind
-                    (match r with
-                     | RSimple tk ->
-                       catch_cls
-                         (bind (resolve f r c) (fun h ->
-                           expect_holder_var t0 c h)) is_not_defined
-                         (fun fl ->
-                         bind (is_identifier_type c tk true) (fun ist ->
-                           if ist
-                           then failm fl
-                           else bind (ped_guard pedantic t0) (fun _ ->
-                                  bind (new_var f tk.tval v.r_type false c)
-                                    (fun nid ->
-                                    bind (add_var c tk.tval nid) (fun _ ->
-                                      ret nid)))))
-                     | _ ->
-                       bind (resolve f r c) (fun h ->
-                         expect_holder_var t0 c h)) (fun id ->
-                    store_value t0 c id v)
-           | None ->
-             (match e with
-              | NAccess (ta, ra) ->
-                bind (resolve f ra c) (fun src ->
-                  match src with
-                  | HVar _ ->
-                    crash
-                      ('s'::('t'::('a'::('t'::('i'::('c'::('_'::('c'::('a'::('s'::('t'::('<'::('A'::('r'::('r'::('a'::('y'::('*'::('>'::(' '::('o'::('n'::(' '::('a'::(' '::('v'::('a'::('r'::('i'::('a'::('b'::('l'::('e'::[])))))))))))))))))))))))))))))))))
-                  | HArr sid ->
-                    bind (resolve f r c) (fun dst ->
-                      match dst with
-                      | HVar _ -> array_direct_error ta c
-                      | HArr did ->
-                        bind (get_arr did) (fun a1 ->
-                          bind (get_arr sid) (fun a2 ->
-                            if negb (dt_eq a1.a_type a2.a_type)
-                            then rt_error t0 c
-                            else if negb (dims_eqb a1.a_dims a2.a_dims)
-                                 then rt_error t0 c
-                                 else bind (copy_array_data hfuel did sid)
-                                        (fun _ -> ret res_none)))))
-              | _ ->
+(** val eval_body : bool -> limits -> evs -> node -> n -> result m **)
+
+let eval_body pedantic lim self n0 c =
+  match n0 with
+  | NInt t0 -> ret (res_of KInt (PInt (digits_to_z t0.tval)))
+  | NReal t0 ->
+    (match stod_literal t0.tval with
+     | Some r -> ret (res_of KReal (PReal r))
+     | None ->
+       crash
+         ('R'::('e'::('a'::('l'::('N'::('o'::('d'::('e'::(':'::(' '::('s'::('t'::('o'::('d'::(' '::('o'::('u'::('t'::('_'::('o'::('f'::('_'::('r'::('a'::('n'::('g'::('e'::[]))))))))))))))))))))))))))))
+  | NBool t0 ->
+    (match t0.tt with
+     | TTRUE -> ret (res_of KBool (PBool true))
+     | TFALSE -> ret (res_of KBool (PBool false))
+     | _ ->
+       crash
+         ('c'::('o'::('m'::('p'::('a'::('r'::('i'::('s'::('o'::('n'::('.'::('c'::('p'::('p'::(' '::('B'::('o'::('o'::('l'::('e'::('a'::('n'::('N'::('o'::('d'::('e'::(' '::('a'::('b'::('o'::('r'::('t'::[])))))))))))))))))))))))))))))))))
+  | NChar t0 ->
+    (match t0.tval with
+     | [] -> ret (res_of KChar (PChar ch_nul))
+     | ch :: _ -> ret (res_of KChar (PChar ch)))
+  | NStr t0 -> ret (res_of KStr (PStr t0.tval))
+  | NDate t0 ->
+    let parts =
+      let rec split s cur0 acc =
+        match s with
+        | [] -> rev ((rev cur0) :: acc)
+        | ch :: r ->
+          if aeqb ch '/'
+          then split r [] ((rev cur0) :: acc)
+          else split r (ch :: cur0) acc
+      in split t0.tval [] []
+    in
+    (match parts with
+     | [] ->
+       crash
+         ('a'::('r'::('i'::('t'::('h'::('m'::('e'::('t'::('i'::('c'::('.'::('c'::('p'::('p'::(' '::('m'::('a'::('k'::('e'::('D'::('a'::('t'::('e'::(':'::(' '::('s'::('t'::('o'::('u'::('l'::(' '::('i'::('n'::('v'::('a'::('l'::('i'::('d'::('_'::('a'::('r'::('g'::('u'::('m'::('e'::('n'::('t'::[])))))))))))))))))))))))))))))))))))))))))))))))
+     | ds :: l ->
+       (match l with
+        | [] ->
+          crash
+            ('a'::('r'::('i'::('t'::('h'::('m'::('e'::('t'::('i'::('c'::('.'::('c'::('p'::('p'::(' '::('m'::('a'::('k'::('e'::('D'::('a'::('t'::('e'::(':'::(' '::('s'::('t'::('o'::('u'::('l'::(' '::('i'::('n'::('v'::('a'::('l'::('i'::('d'::('_'::('a'::('r'::('g'::('u'::('m'::('e'::('n'::('t'::[])))))))))))))))))))))))))))))))))))))))))))))))
+        | ms :: l0 ->
+          (match l0 with
+           | [] ->
+             crash
+               ('a'::('r'::('i'::('t'::('h'::('m'::('e'::('t'::('i'::('c'::('.'::('c'::('p'::('p'::(' '::('m'::('a'::('k'::('e'::('D'::('a'::('t'::('e'::(':'::(' '::('s'::('t'::('o'::('u'::('l'::(' '::('i'::('n'::('v'::('a'::('l'::('i'::('d'::('_'::('a'::('r'::('g'::('u'::('m'::('e'::('n'::('t'::[])))))))))))))))))))))))))))))))))))))))))))))))
+           | ys :: l1 ->
+             (match l1 with
+              | [] ->
+                if (&&)
+                     ((&&)
+                       ((&&) (forallb is_digit (app ds (app ms ys)))
+                         (negb (match ds with
+                                | [] -> true
+                                | _ :: _ -> false)))
+                       (negb (match ms with
+                              | [] -> true
+                              | _ :: _ -> false)))
+                     (negb (match ys with
+                            | [] -> true
+                            | _ :: _ -> false))
+                then let (p0, y) =
+                       let d = digits_to_z ds in
+                       let m0 = digits_to_z ms in
+                       let y = digits_to_z ys in
+                       if (||) ((||) (Z.leb two64 d) (Z.leb two64 m0))
+                            (Z.leb two64 y)
+                       then ((Z0, Z0), Z0)
+                       else date_literal_components d m0 y
+                     in
+                     let (d, m0) = p0 in
+                     if ymd_ok d m0 y
+                     then ret (res_of KDate (PDate (d, m0, y)))
+                     else rt_error t0 c
+                else crash
+                       ('a'::('r'::('i'::('t'::('h'::('m'::('e'::('t'::('i'::('c'::('.'::('c'::('p'::('p'::(' '::('m'::('a'::('k'::('e'::('D'::('a'::('t'::('e'::(':'::(' '::('s'::('t'::('o'::('u'::('l'::(' '::('i'::('n'::('v'::('a'::('l'::('i'::('d'::('_'::('a'::('r'::('g'::('u'::('m'::('e'::('n'::('t'::[])))))))))))))))))))))))))))))))))))))))))))))))
+              | _ :: _ ->
                 crash
-                  ('u'::('n'::('r'::('e'::('a'::('c'::('h'::('a'::('b'::('l'::('e'::(':'::(' '::('h'::('a'::('n'::('d'::('l'::('e'::('r'::(' '::('o'::('n'::('l'::('y'::(' '::('f'::('i'::('r'::('e'::('s'::(' '::('f'::('o'::('r'::(' '::('a'::('n'::(' '::('A'::('c'::('c'::('e'::('s'::('s'::('N'::('o'::('d'::('e'::[])))))))))))))))))))))))))))))))))))))))))))))))))))
-       | NPtrAssign (t0, pr, vr) ->
-         bind (resolve f pr c) (fun ph ->
-           bind (expect_holder_var t0 c ph) (fun pid ->
-             bind (resolve f vr c) (fun vh ->
-               match vh with
-               | HVar vid ->
-                 bind (get_cell pid) (fun pc ->
-                   bind (get_cell vid) (fun vc ->
-                     if negb (dt_is pc.c_type KPtr)
-                     then rt_error t0 c
-                     else (match pc.c_val with
-                           | PPtr (tn, _, _) ->
-                             bind (lookup_ptr_def c tn true) (fun d ->
-                               match d with
-                               | Some target_ty ->
-                                 if negb (dt_eq target_ty vc.c_type)
-                                 then rt_error t0 c
-                                 else bind (nonrec_ancestor vc.c_owner)
-                                        (fun owner ->
-                                        bind
-                                          (set_cell_val pid (PPtr (tn, (Some
-                                            vid), owner))) (fun _ ->
-                                          ret res_none))
-                               | None ->
-                                 crash
-                                   ('u'::('s'::('e'::('r'::('T'::('y'::('p'::('e'::('.'::('c'::('p'::('p'::(' '::('P'::('o'::('i'::('n'::('t'::('e'::('r'::(':'::(':'::('g'::('e'::('t'::('D'::('e'::('f'::('i'::('n'::('i'::('t'::('i'::('o'::('n'::(' '::('n'::('u'::('l'::('l'::[])))))))))))))))))))))))))))))))))))))))))
-                           | _ ->
-                             crash
-                               ('c'::('e'::('l'::('l'::(' '::('p'::('a'::('y'::('l'::('o'::('a'::('d'::(' '::('d'::('i'::('s'::('a'::('g'::('r'::('e'::('e'::('s'::(' '::('w'::('i'::('t'::('h'::(' '::('i'::('t'::('s'::(' '::('t'::('y'::('p'::('e'::[])))))))))))))))))))))))))))))))))))))))
-               | HArr _ -> rt_error t0 c)))
-       | NFnCall (t0, args) -> call_function f t0 args c
-       | NDeclare (t0, ids, ty) ->
-         bind
+                  ('a'::('r'::('i'::('t'::('h'::('m'::('e'::('t'::('i'::('c'::('.'::('c'::('p'::('p'::(' '::('m'::('a'::('k'::('e'::('D'::('a'::('t'::('e'::(':'::(' '::('s'::('t'::('o'::('u'::('l'::(' '::('i'::('n'::('v'::('a'::('l'::('i'::('d'::('_'::('a'::('r'::('g'::('u'::('m'::('e'::('n'::('t'::[])))))))))))))))))))))))))))))))))))))))))))))))))))
+  | NNeg (t0, e) ->
+    bind (self.ev_eval e c) (fun r ->
+      if dt_is r.r_type KInt
+      then bind (as_int r) (fun z0 ->
+             ret (res_of KInt (PInt (wrap64 (Z.mul z0 (Zneg XH))))))
+      else if dt_is r.r_type KReal
+           then bind (as_real r) (fun x ->
+                  ret (res_of KReal (PReal (rmul x (real_of_z (Zneg XH))))))
+           else rt_error t0 c)
+  | NArith (t0, l, r) ->
+    bind (self.ev_eval l c) (fun lr0 ->
+      bind (self.ev_eval r c) (fun rr0 -> eval_arith t0 c lr0 rr0))
+  | NCmp (t0, l, r) ->
+    bind (self.ev_eval l c) (fun lr0 ->
+      bind (self.ev_eval r c) (fun rr0 -> eval_cmp t0 c lr0 rr0))
+  | NLogic (t0, l, r) ->
+    bind (self.ev_eval l c) (fun lr ->
+      let is_and = tt_eqb t0.tt TAND in
+      bind
+        (if (&&) is_and (dt_is lr.r_type KBool)
+         then bind (as_bool lr) (fun b -> ret (negb b))
+         else ret false) (fun lfalse ->
+        if lfalse
+        then ret (res_of KBool (PBool false))
+        else bind (self.ev_eval r c) (fun rr ->
+               if (||) (negb (dt_is lr.r_type KBool))
+                    (negb (dt_is rr.r_type KBool))
+               then rt_error t0 c
+               else bind (as_bool lr) (fun a ->
+                      bind (as_bool rr) (fun b ->
+                        match t0.tt with
+                        | TAND -> ret (res_of KBool (PBool ((&&) a b)))
+                        | TOR -> ret (res_of KBool (PBool ((||) a b)))
+                        | _ ->
+                          crash
+                            ('l'::('o'::('g'::('i'::('c'::('.'::('c'::('p'::('p'::(' '::('o'::('p'::('e'::('r'::('a'::('t'::('o'::('r'::(' '::('a'::('b'::('o'::('r'::('t'::[])))))))))))))))))))))))))))))
+  | NNot (t0, e) ->
+    bind (self.ev_eval e c) (fun r ->
+      if negb (dt_is r.r_type KBool)
+      then rt_error t0 c
+      else bind (as_bool r) (fun b -> ret (res_of KBool (PBool (negb b)))))
+  | NCat (t0, l, r) ->
+    bind (self.ev_eval l c) (fun lr ->
+      bind (self.ev_eval r c) (fun rr ->
+        if (||) (dt_is lr.r_type KNone) (dt_is rr.r_type KNone)
+        then rt_error t0 c
+        else bind (as_payload lr) (fun a ->
+               bind (as_payload rr) (fun b ->
+                 if (||) (negb (is_primitive a)) (negb (is_primitive b))
+                 then rt_error t0 c
+                 else bind (prim_to_string a) (fun sa ->
+                        bind (prim_to_string b) (fun sb ->
+                          bind
+                            (check_strlen lim (Z.add (slen sa) (slen sb)) t0
+                              c) (fun _ ->
+                            ret (res_of KStr (PStr (app sa sb))))))))))
+  | NCast (t0, e, target) ->
+    bind (self.ev_eval e c) (fun v ->
+      if dt_is v.r_type KNone
+      then rt_error t0 c
+      else bind (as_payload v) (fun p0 ->
+             if negb (is_primitive p0)
+             then rt_error t0 c
+             else if dt_is v.r_type target
+                  then ret v
+                  else if (&&)
+                            ((&&) (dt_is v.r_type KDate)
+                              (negb (dk_eqb target KInt)))
+                            (negb (dk_eqb target KStr))
+                       then rt_error t0 c
+                       else bind (cast_prim t0 c p0 target) (fun p' ->
+                              ret (res_of target p'))))
+  | NAccess (t0, r) ->
+    bind
+      (catch_cls (bind (self.ev_resolve r c) (fun x -> ret (Inl x)))
+        is_not_defined (fun fl ->
+        bind (get_enum_element c t0.tval true) (fun en ->
+          match en with
+          | Some ti -> ret (Inr ti)
+          | None -> failm fl))) (fun h ->
+      match h with
+      | Inl h0 ->
+        (match h0 with
+         | HVar id ->
+           bind (get_cell id) (fun cl ->
+             if dt_is cl.c_type KNone
+             then crash
+                    ('v'::('a'::('r'::('i'::('a'::('b'::('l'::('e'::('.'::('c'::('p'::('p'::(' '::('A'::('c'::('c'::('e'::('s'::('s'::('N'::('o'::('d'::('e'::(' '::('N'::('O'::('N'::('E'::(' '::('a'::('b'::('o'::('r'::('t'::[]))))))))))))))))))))))))))))))))))
+             else bind (copy_val hfuel cl.c_val) (fun v ->
+                    ret { r_type = cl.c_type; r_val = (Some v) }))
+         | HArr _ -> array_direct_error t0 c)
+      | Inr p0 ->
+        let (tn, i) = p0 in
+        ret { r_type = { dk = KEnum; dname = (Some tn) }; r_val = (Some
+          (PEnum (tn, i))) })
+  | NAssign (t0, e, r) ->
+    bind
+      (match e with
+       | NAccess (_, _) ->
+         catch_cls (bind (self.ev_eval e c) (fun x -> ret (Some x)))
+           (is_array_direct c) (fun _ -> ret None)
+       | _ -> bind (self.ev_eval e c) (fun x -> ret (Some x))) (fun vr ->
+      match vr with
+      | Some v ->
+        if dt_is v.r_type KNone
+        then rt_error t0 c
+        else bind
+               (match r with
+                | RSimple tk ->
+                  catch_cls
+                    (bind (self.ev_resolve r c) (fun h ->
+                      expect_holder_var t0 c h)) is_not_defined (fun fl ->
+                    bind (is_identifier_type c tk true) (fun ist ->
+                      if ist
+                      then failm fl
+                      else bind (ped_guard pedantic t0) (fun _ ->
+                             bind (self.ev_new_var tk.tval v.r_type false c)
+                               (fun nid ->
+                               bind (add_var c tk.tval nid) (fun _ -> ret nid)))))
+                | _ ->
+                  bind (self.ev_resolve r c) (fun h ->
+                    expect_holder_var t0 c h)) (fun id ->
+               store_value t0 c id v)
+      | None ->
+        (match e with
+         | NAccess (ta, ra) ->
+           bind (self.ev_resolve ra c) (fun src ->
+             match src with
+             | HVar _ ->
+               crash
+                 ('s'::('t'::('a'::('t'::('i'::('c'::('_'::('c'::('a'::('s'::('t'::('<'::('A'::('r'::('r'::('a'::('y'::('*'::('>'::(' '::('o'::('n'::(' '::('a'::(' '::('v'::('a'::('r'::('i'::('a'::('b'::('l'::('e'::[])))))))))))))))))))))))))))))))))
+             | HArr sid ->
+               bind (self.ev_resolve r c) (fun dst ->
+                 match dst with
+                 | HVar _ -> array_direct_error ta c
+                 | HArr did ->
+                   bind (get_arr did) (fun a1 ->
+                     bind (get_arr sid) (fun a2 ->
+                       if negb (dt_eq a1.a_type a2.a_type)
+                       then rt_error t0 c
+                       else if negb (dims_eqb a1.a_dims a2.a_dims)
+                            then rt_error t0 c
+                            else bind (copy_array_data hfuel did sid)
+                                   (fun _ -> ret res_none)))))
+         | _ ->
+           crash
+             ('u'::('n'::('r'::('e'::('a'::('c'::('h'::('a'::('b'::('l'::('e'::(':'::(' '::('h'::('a'::('n'::('d'::('l'::('e'::('r'::(' '::('o'::('n'::('l'::('y'::(' '::('f'::('i'::('r'::('e'::('s'::(' '::('f'::('o'::('r'::(' '::('a'::('n'::(' '::('A'::('c'::('c'::('e'::('s'::('s'::('N'::('o'::('d'::('e'::[])))))))))))))))))))))))))))))))))))))))))))))))))))
+  | NPtrAssign (t0, pr, vr) ->
+    bind (self.ev_resolve pr c) (fun ph ->
+      bind (expect_holder_var t0 c ph) (fun pid ->
+        bind (self.ev_resolve vr c) (fun vh ->
+          match vh with
+          | HVar vid ->
+            bind (get_cell pid) (fun pc ->
+              bind (get_cell vid) (fun vc ->
+                if negb (dt_is pc.c_type KPtr)
+                then rt_error t0 c
+                else (match pc.c_val with
+                      | PPtr (tn, _, _) ->
+                        bind (lookup_ptr_def c tn true) (fun d ->
+                          match d with
+                          | Some target_ty ->
+                            if negb (dt_eq target_ty vc.c_type)
+                            then rt_error t0 c
+                            else bind (nonrec_ancestor vc.c_owner)
+                                   (fun owner ->
+                                   bind
+                                     (set_cell_val pid (PPtr (tn, (Some vid),
+                                       owner))) (fun _ -> ret res_none))
+                          | None ->
+                            crash
+                              ('u'::('s'::('e'::('r'::('T'::('y'::('p'::('e'::('.'::('c'::('p'::('p'::(' '::('P'::('o'::('i'::('n'::('t'::('e'::('r'::(':'::(':'::('g'::('e'::('t'::('D'::('e'::('f'::('i'::('n'::('i'::('t'::('i'::('o'::('n'::(' '::('n'::('u'::('l'::('l'::[])))))))))))))))))))))))))))))))))))))))))
+                      | _ ->
+                        crash
+                          ('c'::('e'::('l'::('l'::(' '::('p'::('a'::('y'::('l'::('o'::('a'::('d'::(' '::('d'::('i'::('s'::('a'::('g'::('r'::('e'::('e'::('s'::(' '::('w'::('i'::('t'::('h'::(' '::('i'::('t'::('s'::(' '::('t'::('y'::('p'::('e'::[])))))))))))))))))))))))))))))))))))))))
+          | HArr _ -> rt_error t0 c)))
+  | NFnCall (t0, args) -> self.ev_call_function t0 args c
+  | NDeclare (t0, ids, ty) ->
+    bind
+      (iterM (fun id ->
+        bind (lookup_var c id.tval false) (fun ex ->
+          match ex with
+          | Some _ -> rt_error t0 c
+          | None ->
+            bind (is_identifier_type c id true) (fun ist ->
+              if ist
+              then rt_error t0 c
+              else bind (get_type c ty true) (fun dty ->
+                     if dt_is dty KNone
+                     then not_defined_error t0 c
+                     else bind (self.ev_new_var id.tval dty false c)
+                            (fun nid -> add_var c id.tval nid))))) ids)
+      (fun _ -> ret res_none)
+  | NConst (t0, v, id) ->
+    bind (self.ev_eval v c) (fun r ->
+      bind (lookup_var c id.tval false) (fun ex ->
+        match ex with
+        | Some _ -> rt_error t0 c
+        | None ->
+          if dt_is r.r_type KNone
+          then crash
+                 ('v'::('a'::('r'::('i'::('a'::('b'::('l'::('e'::('.'::('c'::('p'::('p'::(' '::('V'::('a'::('r'::('i'::('a'::('b'::('l'::('e'::(' '::('N'::('O'::('N'::('E'::(' '::('a'::('b'::('o'::('r'::('t'::[]))))))))))))))))))))))))))))))))
+          else bind (as_payload r) (fun p0 ->
+                 bind fresh (fun nid ->
+                   bind
+                     (put_cell nid { c_name = id.tval; c_type = r.r_type;
+                       c_const = true; c_owner = c; c_val = p0 }) (fun _ ->
+                     bind (add_var c id.tval nid) (fun _ -> ret res_none))))))
+  | NArrDeclare (t0, ids, ty, bounds) ->
+    if (||) (Nat.eqb (length bounds) O) (negb (Nat.even (length bounds)))
+    then crash
+           ('a'::('r'::('r'::('a'::('y'::('.'::('c'::('p'::('p'::(' '::('A'::('r'::('r'::('a'::('y'::('D'::('e'::('c'::('l'::('a'::('r'::('e'::('N'::('o'::('d'::('e'::(' '::('a'::('b'::('o'::('r'::('t'::[]))))))))))))))))))))))))))))))))
+    else bind
            (iterM (fun id ->
-             bind (lookup_var c id.tval false) (fun ex ->
+             bind (lookup_arr c id.tval false) (fun ex ->
                match ex with
                | Some _ -> rt_error t0 c
-               | None ->
-                 bind (is_identifier_type c id true) (fun ist ->
-                   if ist
-                   then rt_error t0 c
-                   else bind (get_type c ty true) (fun dty ->
-                          if dt_is dty KNone
-                          then not_defined_error t0 c
-                          else bind (new_var f id.tval dty false c)
-                                 (fun nid -> add_var c id.tval nid))))) ids)
-           (fun _ -> ret res_none)
-       | NConst (t0, v, id) ->
-         bind (eval f v c) (fun r ->
-           bind (lookup_var c id.tval false) (fun ex ->
-             match ex with
-             | Some _ -> rt_error t0 c
-             | None ->
-               if dt_is r.r_type KNone
-               then crash
-                      ('v'::('a'::('r'::('i'::('a'::('b'::('l'::('e'::('.'::('c'::('p'::('p'::(' '::('V'::('a'::('r'::('i'::('a'::('b'::('l'::('e'::(' '::('N'::('O'::('N'::('E'::(' '::('a'::('b'::('o'::('r'::('t'::[]))))))))))))))))))))))))))))))))
-               else bind (as_payload r) (fun p0 ->
-                      bind fresh (fun nid ->
-                        bind
-                          (put_cell nid { c_name = id.tval; c_type =
-                            r.r_type; c_const = true; c_owner = c; c_val =
-                            p0 }) (fun _ ->
-                          bind (add_var c id.tval nid) (fun _ -> ret res_none))))))
-       | NArrDeclare (t0, ids, ty, bounds) ->
-         if (||) (Nat.eqb (length bounds) O) (negb (Nat.even (length bounds)))
-         then crash
-                ('a'::('r'::('r'::('a'::('y'::('.'::('c'::('p'::('p'::(' '::('A'::('r'::('r'::('a'::('y'::('D'::('e'::('c'::('l'::('a'::('r'::('e'::('N'::('o'::('d'::('e'::(' '::('a'::('b'::('o'::('r'::('t'::[]))))))))))))))))))))))))))))))))
-         else bind
-                (iterM (fun id ->
-                  bind (lookup_arr c id.tval false) (fun ex ->
-                    match ex with
-                    | Some _ -> rt_error t0 c
-                    | None -> ret ())) ids) (fun _ ->
-                bind (eval_bounds (fun x -> eval f x c) c bounds (Zpos XH))
-                  (fun dims ->
-                  bind
-                    (iterM (fun id ->
-                      bind (get_type c ty true) (fun dty ->
-                        if dt_is dty KNone
-                        then not_defined_error t0 c
-                        else bind (new_array f id.tval dty dims c)
-                               (fun aid -> add_arr c id.tval aid))) ids)
+               | None -> ret ())) ids) (fun _ ->
+           bind (eval_bounds (fun x -> self.ev_eval x c) c bounds (Zpos XH))
+             (fun dims ->
+             bind
+               (iterM (fun id ->
+                 bind (get_type c ty true) (fun dty ->
+                   if dt_is dty KNone
+                   then not_defined_error t0 c
+                   else bind (self.ev_new_array id.tval dty dims c)
+                          (fun aid -> add_arr c id.tval aid))) ids) (fun _ ->
+               ret res_none)))
+  | NEnumDef (t0, name, vals) ->
+    bind (is_identifier_type c name false) (fun ist ->
+      if ist
+      then rt_error t0 c
+      else bind
+             (upd_ctx c (fun k ->
+               ctx_with_enums (app k.x_enums ((name.tval, vals) :: [])) k))
+             (fun _ -> ret res_none))
+  | NPtrDef (t0, name, ty) ->
+    bind (get_type c ty true) (fun pty ->
+      if dt_is pty KNone
+      then not_defined_error t0 c
+      else bind (is_identifier_type c name false) (fun ist ->
+             if ist
+             then rt_error t0 c
+             else bind
+                    (upd_ctx c (fun k ->
+                      ctx_with_ptrs (app k.x_ptrs ((name.tval, pty) :: [])) k))
                     (fun _ -> ret res_none)))
-       | NEnumDef (t0, name, vals) ->
-         bind (is_identifier_type c name false) (fun ist ->
-           if ist
-           then rt_error t0 c
-           else bind
-                  (upd_ctx c (fun k ->
-                    ctx_with_enums (app k.x_enums ((name.tval, vals) :: [])) k))
-                  (fun _ -> ret res_none))
-       | NPtrDef (t0, name, ty) ->
-         bind (get_type c ty true) (fun pty ->
-           if dt_is pty KNone
-           then not_defined_error t0 c
-           else bind (is_identifier_type c name false) (fun ist ->
-                  if ist
-                  then rt_error t0 c
-                  else bind
-                         (upd_ctx c (fun k ->
-                           ctx_with_ptrs
-                             (app k.x_ptrs ((name.tval, pty) :: [])) k))
-                         (fun _ -> ret res_none)))
-       | NCompDef (t0, name, body) ->
-         bind (is_identifier_type c name false) (fun ist ->
-           if ist
-           then rt_error t0 c
-           else bind
-                  (upd_ctx c (fun k ->
-                    ctx_with_comps (app k.x_comps ((name.tval, body) :: [])) k))
-                  (fun _ -> ret res_none))
-       | NIf (t0, comps) ->
-         if_chain t0 c
-           (map (if_comp (fun x -> eval f x c) (fun b -> run_block0 f b c))
-             comps)
-       | NCase (_, sel, cases) ->
-         bind (eval f sel c) (fun v ->
-           case_chain
-             (map (fun cc ->
-               match cc with
-               | CEq (b, e) -> ((case_equals f v e c), (run_block0 f b c))
-               | CRange (b, lo, hi) ->
-                 ((case_range f v lo hi c), (run_block0 f b c))
-               | COther b -> ((ret true), (run_block0 f b c))) cases))
-       | NWhile (t0, cond, body) ->
-         while_loop lim f t0 c (eval f cond c) (run_block0 f body c)
-       | NRepeat (t0, cond, body) ->
-         repeat_loop lim f t0 c (eval f cond c) (run_block0 f body c)
-       | NFor (t0, id, start, stop, step, body) ->
-         bind (lookup_var c id.tval true) (fun ex ->
-           bind
-             (match ex with
-              | Some i -> ret i
-              | None ->
-                bind (new_var f id.tval (dt_prim KInt) false c) (fun nid ->
-                  bind (add_var c id.tval nid) (fun _ -> ret nid)))
-             (fun it ->
-             bind (get_cell it) (fun icell ->
-               if icell.c_const
+  | NCompDef (t0, name, body) ->
+    bind (is_identifier_type c name false) (fun ist ->
+      if ist
+      then rt_error t0 c
+      else bind
+             (upd_ctx c (fun k ->
+               ctx_with_comps (app k.x_comps ((name.tval, body) :: [])) k))
+             (fun _ -> ret res_none))
+  | NIf (t0, comps) ->
+    if_chain t0 c
+      (map
+        (if_comp (fun x -> self.ev_eval x c) (fun b -> self.ev_run_block b c))
+        comps)
+  | NCase (_, sel, cases) ->
+    bind (self.ev_eval sel c) (fun v ->
+      case_chain
+        (map (fun cc ->
+          match cc with
+          | CEq (b, e) ->
+            ((self.ev_case_equals v e c), (self.ev_run_block b c))
+          | CRange (b, lo, hi) ->
+            ((self.ev_case_range v lo hi c), (self.ev_run_block b c))
+          | COther b -> ((ret true), (self.ev_run_block b c))) cases))
+  | NWhile (t0, cond, body) ->
+    while_loop lim self.ev_fuel t0 c (self.ev_eval cond c)
+      (self.ev_run_block body c)
+  | NRepeat (t0, cond, body) ->
+    repeat_loop lim self.ev_fuel t0 c (self.ev_eval cond c)
+      (self.ev_run_block body c)
+  | NFor (t0, id, start, stop, step, body) ->
+    bind (lookup_var c id.tval true) (fun ex ->
+      bind
+        (match ex with
+         | Some i -> ret i
+         | None ->
+           bind (self.ev_new_var id.tval (dt_prim KInt) false c) (fun nid ->
+             bind (add_var c id.tval nid) (fun _ -> ret nid))) (fun it ->
+        bind (get_cell it) (fun icell ->
+          if icell.c_const
+          then rt_error t0 c
+          else if negb (dt_is icell.c_type KInt)
                then rt_error t0 c
-               else if negb (dt_is icell.c_type KInt)
+               else bind (self.ev_eval start c) (fun sr ->
+                      if negb (dt_is sr.r_type KInt)
+                      then rt_error t0 c
+                      else bind (self.ev_eval stop c) (fun er ->
+                             if negb (dt_is er.r_type KInt)
+                             then rt_error t0 c
+                             else bind
+                                    (match step with
+                                     | Some se ->
+                                       bind (self.ev_eval se c) (fun r ->
+                                         if negb (dt_is r.r_type KInt)
+                                         then rt_error t0 c
+                                         else as_int r)
+                                     | None -> ret (Zpos XH)) (fun stepv ->
+                                    bind (as_int sr) (fun sv ->
+                                      bind (as_int er) (fun ev ->
+                                        bind (set_cell_val it (PInt sv))
+                                          (fun _ ->
+                                          for_loop lim self.ev_fuel t0 c it
+                                            stepv ev
+                                            (self.ev_run_block body c))))))))))
+  | NBreak t0 -> failm (FBreak t0)
+  | NContinue t0 -> failm (FContinue t0)
+  | NProc (t0, name, params, body) ->
+    bind (gets (fun s -> s.s_procs)) (fun ps ->
+      match assoc_str name ps with
+      | Some _ -> rt_error t0 c
+      | None ->
+        bind
+          (mapM (fun p0 ->
+            let (p1, br) = p0 in
+            let (nm, tyt) = p1 in
+            bind (get_type c tyt true) (fun ty ->
+              if dt_is ty KNone
+              then not_defined_error tyt c
+              else ret ((nm, ty), br))) params) (fun pl ->
+          bind
+            (modify (fun s ->
+              set_procs
+                (app s.s_procs ((name, { pd_params = pl; pd_body =
+                  body }) :: [])) s)) (fun _ -> ret res_none)))
+  | NFunc (t0, name, params, body, rett) ->
+    bind (gets (fun s -> s.s_funcs)) (fun fs ->
+      match builtin_sig name with
+      | Some _ -> rt_error t0 c
+      | None ->
+        (match assoc_str name fs with
+         | Some _ -> rt_error t0 c
+         | None ->
+           bind (get_type c rett true) (fun rty ->
+             if dt_is rty KNone
+             then not_defined_error rett c
+             else bind
+                    (mapM (fun p0 ->
+                      let (p1, br) = p0 in
+                      let (nm, tyt) = p1 in
+                      bind (get_type c tyt true) (fun ty ->
+                        if dt_is ty KNone
+                        then not_defined_error tyt c
+                        else ret ((nm, ty), br))) params) (fun pl ->
+                    bind
+                      (modify (fun s ->
+                        set_funcs
+                          (app s.s_funcs ((name, { fd_params = pl; fd_body =
+                            body; fd_ret = rty; fd_tok = t0 }) :: [])) s))
+                      (fun _ -> ret res_none)))))
+  | NCall (t0, name, args) -> self.ev_call_procedure t0 name args c
+  | NReturn (t0, e) ->
+    bind (get_ctx c) (fun cx ->
+      if negb cx.x_isfun
+      then rt_error t0 c
+      else bind (self.ev_eval e c) (fun r ->
+             bind (upd_ctx c (ctx_with_retval (Some r))) (fun _ ->
+               bind (implicit_cast cx.x_rettype r) (fun r' ->
+                 bind (upd_ctx c (ctx_with_retval (Some r'))) (fun _ ->
+                   if negb (dt_eq r'.r_type cx.x_rettype)
+                   then rt_error t0 c
+                   else failm FReturn)))))
+  | NOutput (_, es) ->
+    bind
+      (iterM (fun e ->
+        bind (self.ev_eval e c) (fun r -> output_item c (node_token e) r)) es)
+      (fun _ -> bind (emit (ch_nl :: [])) (fun _ -> ret res_none))
+  | NInput (t0, r) ->
+    bind
+      (match r with
+       | RSimple tk ->
+         catch_cls
+           (bind (self.ev_resolve r c) (fun h -> expect_holder_var t0 c h))
+           is_not_defined (fun fl ->
+           bind (is_identifier_type c tk true) (fun ist ->
+             if ist
+             then failm fl
+             else bind (ped_guard pedantic tk) (fun _ ->
+                    bind (self.ev_new_var tk.tval (dt_prim KStr) false c)
+                      (fun nid ->
+                      bind (add_var c tk.tval nid) (fun _ -> ret nid)))))
+       | _ -> bind (self.ev_resolve r c) (fun h -> expect_holder_var t0 c h))
+      (fun id ->
+      bind (get_cell id) (fun cl ->
+        if cl.c_const
+        then rt_error t0 c
+        else bind read_line (fun x ->
+               let (line0, _) = x in
+               (match cl.c_type.dk with
+                | KNone ->
+                  crash
+                    ('i'::('o'::('.'::('c'::('p'::('p'::(' '::('I'::('n'::('p'::('u'::('t'::('N'::('o'::('d'::('e'::(' '::('N'::('O'::('N'::('E'::(' '::('a'::('b'::('o'::('r'::('t'::[])))))))))))))))))))))))))))
+                | KInt ->
+                  bind (set_cell_val id (PInt (string_to_int line0)))
+                    (fun _ -> ret res_none)
+                | KReal ->
+                  bind (set_cell_val id (PReal (string_to_real line0)))
+                    (fun _ -> ret res_none)
+                | KBool ->
+                  bind
+                    (set_cell_val id (PBool
+                      (str_eqb line0
+                        (str_of_string ('T'::('R'::('U'::('E'::[]))))))))
+                    (fun _ -> ret res_none)
+                | KChar ->
+                  bind
+                    (set_cell_val id (PChar
+                      (match line0 with
+                       | [] -> ch_nul
+                       | ch :: _ -> ch))) (fun _ -> ret res_none)
+                | KStr ->
+                  bind (set_cell_val id (PStr line0)) (fun _ -> ret res_none)
+                | _ -> rt_error t0 c))))
+  | NOpenFile (t0, fn, mode) ->
+    bind (self.ev_eval fn c) (fun fr ->
+      if negb (dt_is fr.r_type KStr)
+      then rt_error t0 c
+      else bind (as_str fr) (fun name ->
+             bind (gets (fun s -> s.s_files)) (fun fl ->
+               match find_file name fl with
+               | Some _ -> rt_error t0 c
+               | None ->
+                 bind (create_file name mode) (fun ok ->
+                   if ok then ret res_none else rt_error t0 c))))
+  | NReadFile (t0, fn, id) ->
+    bind (self.ev_eval fn c) (fun fr ->
+      if negb (dt_is fr.r_type KStr)
+      then rt_error t0 c
+      else bind (as_str fr) (fun name ->
+             bind (gets (fun s -> s.s_files)) (fun fl ->
+               match find_file name fl with
+               | Some fh ->
+                 (match fh.of_mode with
+                  | FRead ->
+                    bind (lookup_var c id.tval true) (fun ex ->
+                      bind
+                        (match ex with
+                         | Some i ->
+                           bind (get_cell i) (fun cl ->
+                             if negb (dt_is cl.c_type KStr)
+                             then rt_error t0 c
+                             else if cl.c_const then rt_error t0 c else ret i)
+                         | None ->
+                           bind
+                             (self.ev_new_var id.tval (dt_prim KStr) false c)
+                             (fun nid ->
+                             bind (add_var c id.tval nid) (fun _ -> ret nid)))
+                        (fun vid ->
+                        let (line0, fh') = file_read_line fh in
+                        bind (update_file fh') (fun _ ->
+                          bind (set_cell_val vid (PStr line0)) (fun _ ->
+                            ret res_none))))
+                  | _ -> rt_error t0 c)
+               | None -> rt_error t0 c)))
+  | NWriteFile (t0, fn, d) ->
+    bind (self.ev_eval fn c) (fun fr ->
+      if negb (dt_is fr.r_type KStr)
+      then rt_error t0 c
+      else bind (as_str fr) (fun name ->
+             bind (gets (fun s -> s.s_files)) (fun fl ->
+               match find_file name fl with
+               | Some fh ->
+                 (match fh.of_mode with
+                  | FRead -> rt_error t0 c
+                  | FRandom -> rt_error t0 c
+                  | _ ->
+                    bind (self.ev_eval d c) (fun dr ->
+                      match dr.r_type.dk with
+                      | KNone -> rt_error t0 c
+                      | KEnum -> rt_error t0 c
+                      | KPtr -> rt_error t0 c
+                      | KRec -> rt_error t0 c
+                      | _ ->
+                        bind (as_payload dr) (fun p0 ->
+                          bind (prim_to_string p0) (fun s ->
+                            bind
+                              (modify (fun st0 ->
+                                set_fs
+                                  (fs_set name
+                                    (app
+                                      (match fs_get name st0.s_fs with
+                                       | Some old -> old
+                                       | None -> []) (app s (ch_nl :: [])))
+                                    st0.s_fs) st0)) (fun _ -> ret res_none)))))
+               | None -> rt_error t0 c)))
+  | NCloseFile (t0, fn) ->
+    bind (self.ev_eval fn c) (fun fr ->
+      if negb (dt_is fr.r_type KStr)
+      then rt_error t0 c
+      else bind (as_str fr) (fun name ->
+             bind (gets (fun s -> s.s_files)) (fun fl ->
+               match find_file name fl with
+               | Some fh ->
+                 bind (close_file_effect fh) (fun _ ->
+                   bind
+                     (modify (fun s ->
+                       set_files (remove_file name s.s_files) s)) (fun _ ->
+                     ret res_none))
+               | None -> rt_error t0 c)))
+  | NSeek (t0, fn, a) ->
+    bind (self.ev_eval a c) (fun ar ->
+      if negb (dt_is ar.r_type KInt)
+      then rt_error t0 c
+      else bind (as_int ar) (fun addr ->
+             if Z.ltb addr (Zpos XH)
+             then rt_error t0 c
+             else bind (self.ev_eval fn c) (fun fr ->
+                    if negb (dt_is fr.r_type KStr)
                     then rt_error t0 c
-                    else bind (eval f start c) (fun sr ->
-                           if negb (dt_is sr.r_type KInt)
-                           then rt_error t0 c
-                           else bind (eval f stop c) (fun er ->
-                                  if negb (dt_is er.r_type KInt)
+                    else bind (as_str fr) (fun name ->
+                           bind (gets (fun s -> s.s_files)) (fun fl ->
+                             match find_file name fl with
+                             | Some fh ->
+                               (match fh.of_mode with
+                                | FRandom ->
+                                  (match rf_seek fh addr with
+                                   | Some fh' ->
+                                     bind (update_file fh') (fun _ ->
+                                       ret res_none)
+                                   | None -> rt_error t0 c)
+                                | _ -> rt_error t0 c)
+                             | None -> rt_error t0 c)))))
+  | NGetRecord (t0, fn, id) ->
+    bind (self.ev_eval fn c) (fun fr ->
+      if negb (dt_is fr.r_type KStr)
+      then rt_error t0 c
+      else bind (as_str fr) (fun name ->
+             bind (gets (fun s -> s.s_files)) (fun fl ->
+               match find_file name fl with
+               | Some fh ->
+                 (match fh.of_mode with
+                  | FRandom ->
+                    bind (lookup_var c id.tval true) (fun vo ->
+                      bind (lookup_arr c id.tval true) (fun ao ->
+                        match vo with
+                        | Some vid ->
+                          bind (get_cell vid) (fun cl ->
+                            if dt_is cl.c_type KPtr
+                            then rt_error t0 c
+                            else bind
+                                   (match ao with
+                                    | Some aid ->
+                                      bind (get_arr aid) (fun a ->
+                                        if dt_is a.a_type KPtr
+                                        then rt_error t0 c
+                                        else ret ())
+                                    | None -> ret ()) (fun _ ->
+                                   if cl.c_const
+                                   then rt_error t0 c
+                                   else (match rf_get fh with
+                                         | Some rec0 ->
+                                           bind (abs_val hfuel c cl.c_val)
+                                             (fun old ->
+                                             let (p0, ok) = load old rec0 in
+                                             let (new0, _) = p0 in
+                                             bind (store_tree hfuel vid new0)
+                                               (fun _ ->
+                                               if ok
+                                               then ret res_none
+                                               else rt_error t0 c))
+                                         | None -> rt_error t0 c)))
+                        | None ->
+                          (match ao with
+                           | Some aid ->
+                             bind (get_arr aid) (fun a ->
+                               if dt_is a.a_type KPtr
+                               then rt_error t0 c
+                               else (match rf_get fh with
+                                     | Some rec0 ->
+                                       bind
+                                         (mapM (fun e ->
+                                           bind (get_cell e) (fun cl ->
+                                             abs_val hfuel c cl.c_val))
+                                           a.a_elems) (fun olds ->
+                                         let (p0, ok) = load_array olds rec0
+                                         in
+                                         let (news, _) = p0 in
+                                         bind
+                                           (zipM (fun e tr ->
+                                             store_tree hfuel e tr) a.a_elems
+                                             news) (fun _ ->
+                                           if ok
+                                           then ret res_none
+                                           else rt_error t0 c))
+                                     | None -> rt_error t0 c))
+                           | None -> not_defined_error id c)))
+                  | _ -> rt_error t0 c)
+               | None -> rt_error t0 c)))
+  | NPutRecord (t0, fn, id) ->
+    bind (self.ev_eval fn c) (fun fr ->
+      if negb (dt_is fr.r_type KStr)
+      then rt_error t0 c
+      else bind (as_str fr) (fun name ->
+             bind (gets (fun s -> s.s_files)) (fun fl ->
+               match find_file name fl with
+               | Some fh ->
+                 (match fh.of_mode with
+                  | FRandom ->
+                    bind (lookup_var c id.tval true) (fun vo ->
+                      bind (lookup_arr c id.tval true) (fun ao ->
+                        bind
+                          (match vo with
+                           | Some vid ->
+                             bind (get_cell vid) (fun cl ->
+                               if dt_is cl.c_type KPtr
+                               then rt_error t0 c
+                               else bind
+                                      (match ao with
+                                       | Some aid ->
+                                         bind (get_arr aid) (fun a ->
+                                           if dt_is a.a_type KPtr
+                                           then rt_error t0 c
+                                           else ret ())
+                                       | None -> ret ()) (fun _ ->
+                                      bind (abs_val hfuel c cl.c_val)
+                                        (fun tr ->
+                                        match dump tr with
+                                        | Some s -> ret s
+                                        | None ->
+                                          unsupported
+                                            ('N'::('a'::('N'::(' '::('t'::('e'::('x'::('t'::[])))))))))))
+                           | None ->
+                             (match ao with
+                              | Some aid ->
+                                bind (get_arr aid) (fun a ->
+                                  if dt_is a.a_type KPtr
                                   then rt_error t0 c
                                   else bind
-                                         (match step with
-                                          | Some se ->
-                                            bind (eval f se c) (fun r ->
-                                              if negb (dt_is r.r_type KInt)
-                                              then rt_error t0 c
-                                              else as_int r)
-                                          | None -> ret (Zpos XH))
-                                         (fun stepv ->
-                                         bind (as_int sr) (fun sv ->
-                                           bind (as_int er) (fun ev ->
-                                             bind (set_cell_val it (PInt sv))
-                                               (fun _ ->
-                                               for_loop lim f t0 c it stepv
-                                                 ev (run_block0 f body c))))))))))
-       | NBreak t0 -> failm (FBreak t0)
-       | NContinue t0 -> failm (FContinue t0)
-       | NProc (t0, name, params, body) ->
-         bind (gets (fun s -> s.s_procs)) (fun ps ->
-           match assoc_str name ps with
-           | Some _ -> rt_error t0 c
-           | None ->
-             bind
-               (mapM (fun p0 ->
-                 let (p1, br) = p0 in
-                 let (nm, tyt) = p1 in
-                 bind (get_type c tyt true) (fun ty ->
-                   if dt_is ty KNone
-                   then not_defined_error tyt c
-                   else ret ((nm, ty), br))) params) (fun pl ->
-               bind
-                 (modify (fun s ->
-                   set_procs
-                     (app s.s_procs ((name, { pd_params = pl; pd_body =
-                       body }) :: [])) s)) (fun _ -> ret res_none)))
-       | NFunc (t0, name, params, body, rett) ->
-         bind (gets (fun s -> s.s_funcs)) (fun fs ->
-           match builtin_sig name with
-           | Some _ -> rt_error t0 c
-           | None ->
-             (match assoc_str name fs with
-              | Some _ -> rt_error t0 c
-              | None ->
-                bind (get_type c rett true) (fun rty ->
-                  if dt_is rty KNone
-                  then not_defined_error rett c
-                  else bind
-                         (mapM (fun p0 ->
-                           let (p1, br) = p0 in
-                           let (nm, tyt) = p1 in
-                           bind (get_type c tyt true) (fun ty ->
-                             if dt_is ty KNone
-                             then not_defined_error tyt c
-                             else ret ((nm, ty), br))) params) (fun pl ->
-                         bind
-                           (modify (fun s ->
-                             set_funcs
-                               (app s.s_funcs ((name, { fd_params = pl;
-                                 fd_body = body; fd_ret = rty; fd_tok =
-                                 t0 }) :: [])) s)) (fun _ -> ret res_none)))))
-       | NCall (t0, name, args) -> call_procedure f t0 name args c
-       | NReturn (t0, e) ->
-         bind (get_ctx c) (fun cx ->
-           if negb cx.x_isfun
-           then rt_error t0 c
-           else bind (eval f e c) (fun r ->
-                  bind (upd_ctx c (ctx_with_retval (Some r))) (fun _ ->
-                    bind (implicit_cast cx.x_rettype r) (fun r' ->
-                      bind (upd_ctx c (ctx_with_retval (Some r'))) (fun _ ->
-                        if negb (dt_eq r'.r_type cx.x_rettype)
-                        then rt_error t0 c
-                        else failm FReturn)))))
-       | NOutput (_, es) ->
-         bind
-           (iterM (fun e ->
-             bind (eval f e c) (fun r -> output_item c (node_token e) r)) es)
-           (fun _ -> bind (emit (ch_nl :: [])) (fun _ -> ret res_none))
-       | NInput (t0, r) ->
-         bind
-           (match r with
-            | RSimple tk ->
-              catch_cls
-                (bind (resolve f r c) (fun h -> expect_holder_var t0 c h))
-                is_not_defined (fun fl ->
-                bind (is_identifier_type c tk true) (fun ist ->
-                  if ist
-                  then failm fl
-                  else bind (ped_guard pedantic tk) (fun _ ->
-                         bind (new_var f tk.tval (dt_prim KStr) false c)
-                           (fun nid ->
-                           bind (add_var c tk.tval nid) (fun _ -> ret nid)))))
-            | _ -> bind (resolve f r c) (fun h -> expect_holder_var t0 c h))
-           (fun id ->
-           bind (get_cell id) (fun cl ->
-             if cl.c_const
-             then rt_error t0 c
-             else bind read_line (fun x ->
-                    let (line0, _) = x in
-                    (match cl.c_type.dk with
-                     | KNone ->
-                       crash
-                         ('i'::('o'::('.'::('c'::('p'::('p'::(' '::('I'::('n'::('p'::('u'::('t'::('N'::('o'::('d'::('e'::(' '::('N'::('O'::('N'::('E'::(' '::('a'::('b'::('o'::('r'::('t'::[])))))))))))))))))))))))))))
-                     | KInt ->
-                       bind (set_cell_val id (PInt (string_to_int line0)))
-                         (fun _ -> ret res_none)
-                     | KReal ->
-                       bind (set_cell_val id (PReal (string_to_real line0)))
-                         (fun _ -> ret res_none)
-                     | KBool ->
-                       bind
-                         (set_cell_val id (PBool
-                           (str_eqb line0
-                             (str_of_string ('T'::('R'::('U'::('E'::[]))))))))
-                         (fun _ -> ret res_none)
-                     | KChar ->
-                       bind
-                         (set_cell_val id (PChar
-                           (match line0 with
-                            | [] -> ch_nul
-                            | ch :: _ -> ch))) (fun _ -> ret res_none)
-                     | KStr ->
-                       bind (set_cell_val id (PStr line0)) (fun _ ->
-                         ret res_none)
-                     | _ -> rt_error t0 c))))
-       | NOpenFile (t0, fn, mode) ->
-         bind (eval f fn c) (fun fr ->
-           if negb (dt_is fr.r_type KStr)
-           then rt_error t0 c
-           else bind (as_str fr) (fun name ->
-                  bind (gets (fun s -> s.s_files)) (fun fl ->
-                    match find_file name fl with
-                    | Some _ -> rt_error t0 c
+                                         (mapM (fun e ->
+                                           bind (get_cell e) (fun cl ->
+                                             abs_val hfuel c cl.c_val))
+                                           a.a_elems) (fun trs ->
+                                         match dump_array trs with
+                                         | Some s -> ret s
+                                         | None ->
+                                           unsupported
+                                             ('N'::('a'::('N'::(' '::('t'::('e'::('x'::('t'::[]))))))))))
+                              | None -> not_defined_error id c)) (fun txt ->
+                          bind (update_file (rf_put fh txt)) (fun _ ->
+                            ret res_none))))
+                  | _ -> rt_error t0 c)
+               | None -> rt_error t0 c)))
+
+(** val resolve_body : evs -> resolver -> n -> holder m **)
+
+let resolve_body self r c =
+  match r with
+  | RSimple t0 ->
+    bind (lookup_var c t0.tval true) (fun v ->
+      match v with
+      | Some id -> ret (HVar id)
+      | None ->
+        bind (lookup_arr c t0.tval true) (fun a ->
+          match a with
+          | Some id -> ret (HArr id)
+          | None -> not_defined_error t0 c))
+  | RField (t0, r', m0) ->
+    bind (self.ev_resolve r' c) (fun h ->
+      match h with
+      | HVar id ->
+        bind (get_cell id) (fun cl ->
+          if negb (dt_is cl.c_type KRec)
+          then rt_error t0 c
+          else (match cl.c_val with
+                | PRec (_, rc) ->
+                  bind (lookup_var rc m0.tval false) (fun v ->
+                    match v with
+                    | Some fid -> ret (HVar fid)
                     | None ->
-                      bind (create_file name mode) (fun ok ->
-                        if ok then ret res_none else rt_error t0 c))))
-       | NReadFile (t0, fn, id) ->
-         bind (eval f fn c) (fun fr ->
-           if negb (dt_is fr.r_type KStr)
-           then rt_error t0 c
-           else bind (as_str fr) (fun name ->
-                  bind (gets (fun s -> s.s_files)) (fun fl ->
-                    match find_file name fl with
-                    | Some fh ->
-                      (match fh.of_mode with
-                       | FRead ->
-                         bind (lookup_var c id.tval true) (fun ex ->
-                           bind
-                             (match ex with
-                              | Some i ->
-                                bind (get_cell i) (fun cl ->
-                                  if negb (dt_is cl.c_type KStr)
-                                  then rt_error t0 c
-                                  else if cl.c_const
-                                       then rt_error t0 c
-                                       else ret i)
-                              | None ->
-                                bind
-                                  (new_var f id.tval (dt_prim KStr) false c)
-                                  (fun nid ->
-                                  bind (add_var c id.tval nid) (fun _ ->
-                                    ret nid))) (fun vid ->
-                             let (line0, fh') = file_read_line fh in
-                             bind (update_file fh') (fun _ ->
-                               bind (set_cell_val vid (PStr line0)) (fun _ ->
-                                 ret res_none))))
-                       | _ -> rt_error t0 c)
-                    | None -> rt_error t0 c)))
-       | NWriteFile (t0, fn, d) ->
-         bind (eval f fn c) (fun fr ->
-           if negb (dt_is fr.r_type KStr)
-           then rt_error t0 c
-           else bind (as_str fr) (fun name ->
-                  bind (gets (fun s -> s.s_files)) (fun fl ->
-                    match find_file name fl with
-                    | Some fh ->
-                      (match fh.of_mode with
-                       | FRead -> rt_error t0 c
-                       | FRandom -> rt_error t0 c
-                       | _ ->
-                         bind (eval f d c) (fun dr ->
-                           match dr.r_type.dk with
-                           | KNone -> rt_error t0 c
-                           | KEnum -> rt_error t0 c
-                           | KPtr -> rt_error t0 c
-                           | KRec -> rt_error t0 c
-                           | _ ->
-                             bind (as_payload dr) (fun p0 ->
-                               bind (prim_to_string p0) (fun s ->
-                                 bind
-                                   (modify (fun st0 ->
-                                     set_fs
-                                       (fs_set name
-                                         (app
-                                           (match fs_get name st0.s_fs with
-                                            | Some old -> old
-                                            | None -> [])
-                                           (app s (ch_nl :: []))) st0.s_fs)
-                                       st0)) (fun _ -> ret res_none)))))
-                    | None -> rt_error t0 c)))
-       | NCloseFile (t0, fn) ->
-         bind (eval f fn c) (fun fr ->
-           if negb (dt_is fr.r_type KStr)
-           then rt_error t0 c
-           else bind (as_str fr) (fun name ->
-                  bind (gets (fun s -> s.s_files)) (fun fl ->
-                    match find_file name fl with
-                    | Some fh ->
-                      bind (close_file_effect fh) (fun _ ->
-                        bind
-                          (modify (fun s ->
-                            set_files (remove_file name s.s_files) s))
-                          (fun _ -> ret res_none))
-                    | None -> rt_error t0 c)))
-       | NSeek (t0, fn, a) ->
-         bind (eval f a c) (fun ar ->
-           if negb (dt_is ar.r_type KInt)
-           then rt_error t0 c
-           else bind (as_int ar) (fun addr ->
-                  if Z.ltb addr (Zpos XH)
-                  then rt_error t0 c
-                  else bind (eval f fn c) (fun fr ->
-                         if negb (dt_is fr.r_type KStr)
-                         then rt_error t0 c
-                         else bind (as_str fr) (fun name ->
-                                bind (gets (fun s -> s.s_files)) (fun fl ->
-                                  match find_file name fl with
-                                  | Some fh ->
-                                    (match fh.of_mode with
-                                     | FRandom ->
-                                       (match rf_seek fh addr with
-                                        | Some fh' ->
-                                          bind (update_file fh') (fun _ ->
-                                            ret res_none)
-                                        | None -> rt_error t0 c)
-                                     | _ -> rt_error t0 c)
-                                  | None -> rt_error t0 c)))))
-       | NGetRecord (t0, fn, id) ->
-         bind (eval f fn c) (fun fr ->
-           if negb (dt_is fr.r_type KStr)
-           then rt_error t0 c
-           else bind (as_str fr) (fun name ->
-                  bind (gets (fun s -> s.s_files)) (fun fl ->
-                    match find_file name fl with
-                    | Some fh ->
-                      (match fh.of_mode with
-                       | FRandom ->
-                         bind (lookup_var c id.tval true) (fun vo ->
-                           bind (lookup_arr c id.tval true) (fun ao ->
-                             match vo with
-                             | Some vid ->
-                               bind (get_cell vid) (fun cl ->
-                                 if dt_is cl.c_type KPtr
-                                 then rt_error t0 c
-                                 else bind
-                                        (match ao with
-                                         | Some aid ->
-                                           bind (get_arr aid) (fun a ->
-                                             if dt_is a.a_type KPtr
-                                             then rt_error t0 c
-                                             else ret ())
-                                         | None -> ret ()) (fun _ ->
-                                        if cl.c_const
-                                        then rt_error t0 c
-                                        else (match rf_get fh with
-                                              | Some rec0 ->
-                                                bind
-                                                  (abs_val hfuel c cl.c_val)
-                                                  (fun old ->
-                                                  let (p0, ok) = load old rec0
-                                                  in
-                                                  let (new0, _) = p0 in
-                                                  bind
-                                                    (store_tree hfuel vid
-                                                      new0) (fun _ ->
-                                                    if ok
-                                                    then ret res_none
-                                                    else rt_error t0 c))
-                                              | None -> rt_error t0 c)))
-                             | None ->
-                               (match ao with
-                                | Some aid ->
-                                  bind (get_arr aid) (fun a ->
-                                    if dt_is a.a_type KPtr
-                                    then rt_error t0 c
-                                    else (match rf_get fh with
-                                          | Some rec0 ->
-                                            bind
-                                              (mapM (fun e ->
-                                                bind (get_cell e) (fun cl ->
-                                                  abs_val hfuel c cl.c_val))
-                                                a.a_elems) (fun olds ->
-                                              let (p0, ok) =
-                                                load_array olds rec0
-                                              in
-                                              let (news, _) = p0 in
-                                              bind
-                                                (zipM (fun e tr ->
-                                                  store_tree hfuel e tr)
-                                                  a.a_elems news) (fun _ ->
-                                                if ok
-                                                then ret res_none
-                                                else rt_error t0 c))
-                                          | None -> rt_error t0 c))
-                                | None -> not_defined_error id c)))
-                       | _ -> rt_error t0 c)
-                    | None -> rt_error t0 c)))
-       | NPutRecord (t0, fn, id) ->
-         bind (eval f fn c) (fun fr ->
-           if negb (dt_is fr.r_type KStr)
-           then rt_error t0 c
-           else bind (as_str fr) (fun name ->
-                  bind (gets (fun s -> s.s_files)) (fun fl ->
-                    match find_file name fl with
-                    | Some fh ->
-                      (match fh.of_mode with
-                       | FRandom ->
-                         bind (lookup_var c id.tval true) (fun vo ->
-                           bind (lookup_arr c id.tval true) (fun ao ->
-                             bind
-                               (match vo with
-                                | Some vid ->
-                                  bind (get_cell vid) (fun cl ->
-                                    if dt_is cl.c_type KPtr
-                                    then rt_error t0 c
-                                    else bind
-                                           (match ao with
-                                            | Some aid ->
-                                              bind (get_arr aid) (fun a ->
-                                                if dt_is a.a_type KPtr
-                                                then rt_error t0 c
-                                                else ret ())
-                                            | None -> ret ()) (fun _ ->
-                                           bind (abs_val hfuel c cl.c_val)
-                                             (fun tr ->
-                                             match dump tr with
-                                             | Some s -> ret s
-                                             | None ->
-                                               unsupported
-                                                 ('N'::('a'::('N'::(' '::('t'::('e'::('x'::('t'::[])))))))))))
-                                | None ->
-                                  (match ao with
-                                   | Some aid ->
-                                     bind (get_arr aid) (fun a ->
-                                       if dt_is a.a_type KPtr
-                                       then rt_error t0 c
-                                       else bind
-                                              (mapM (fun e ->
-                                                bind (get_cell e) (fun cl ->
-                                                  abs_val hfuel c cl.c_val))
-                                                a.a_elems) (fun trs ->
-                                              match dump_array trs with
-                                              | Some s -> ret s
-                                              | None ->
-                                                unsupported
-                                                  ('N'::('a'::('N'::(' '::('t'::('e'::('x'::('t'::[]))))))))))
-                                   | None -> not_defined_error id c))
-                               (fun txt ->
-                               bind (update_file (rf_put fh txt)) (fun _ ->
-                                 ret res_none))))
-                       | _ -> rt_error t0 c)
-                    | None -> rt_error t0 c))))
-  and resolve fuel r c =
-    match fuel with
-    | O -> failm FFuel
-    | S f ->
-      (match r with
-       | RSimple t0 ->
-         bind (lookup_var c t0.tval true) (fun v ->
-           match v with
-           | Some id -> ret (HVar id)
-           | None ->
-             bind (lookup_arr c t0.tval true) (fun a ->
-               match a with
-               | Some id -> ret (HArr id)
-               | None -> not_defined_error t0 c))
-       | RField (t0, r', m0) ->
-         bind (resolve f r' c) (fun h ->
-           match h with
-           | HVar id ->
-             bind (get_cell id) (fun cl ->
-               if negb (dt_is cl.c_type KRec)
-               then rt_error t0 c
-               else (match cl.c_val with
-                     | PRec (_, rc) ->
-                       bind (lookup_var rc m0.tval false) (fun v ->
-                         match v with
-                         | Some fid -> ret (HVar fid)
-                         | None ->
-                           bind (lookup_arr rc m0.tval false) (fun a ->
-                             match a with
-                             | Some aid -> ret (HArr aid)
-                             | None -> rt_error t0 c))
-                     | _ ->
-                       crash
-                         ('c'::('e'::('l'::('l'::(' '::('p'::('a'::('y'::('l'::('o'::('a'::('d'::(' '::('d'::('i'::('s'::('a'::('g'::('r'::('e'::('e'::('s'::(' '::('w'::('i'::('t'::('h'::(' '::('i'::('t'::('s'::(' '::('t'::('y'::('p'::('e'::[]))))))))))))))))))))))))))))))))))))))
-           | HArr _ -> rt_error t0 c)
-       | RDeref (t0, r') ->
-         bind (resolve f r' c) (fun h ->
-           match h with
-           | HVar id ->
-             bind (get_cell id) (fun cl ->
-               if negb (dt_is cl.c_type KPtr)
-               then rt_error t0 c
-               else (match cl.c_val with
-                     | PPtr (_, tgt, owner) ->
-                       bind (on_chain c owner) (fun live ->
-                         if negb live
-                         then rt_error t0 c
-                         else (match tgt with
-                               | Some tid -> ret (HVar tid)
-                               | None -> rt_error t0 c))
-                     | _ ->
-                       crash
-                         ('c'::('e'::('l'::('l'::(' '::('p'::('a'::('y'::('l'::('o'::('a'::('d'::(' '::('d'::('i'::('s'::('a'::('g'::('r'::('e'::('e'::('s'::(' '::('w'::('i'::('t'::('h'::(' '::('i'::('t'::('s'::(' '::('t'::('y'::('p'::('e'::[]))))))))))))))))))))))))))))))))))))))
-           | HArr _ -> rt_error t0 c)
-       | RIndex (t0, r', idx) ->
-         bind (resolve f r' c) (fun h ->
-           match h with
-           | HVar _ -> rt_error t0 c
-           | HArr aid ->
-             bind (get_arr aid) (fun a ->
-               if negb (Nat.eqb (length idx) (length a.a_dims))
-               then rt_error t0 c
-               else bind (eval_indices (fun x -> eval f x c) c idx a.a_dims)
-                      (fun is ->
-                      match nth_z a.a_elems (linear is a.a_dims) with
-                      | Some eid -> ret (HVar eid)
-                      | None ->
-                        crash
-                          ('a'::('r'::('r'::('a'::('y'::('.'::('c'::('p'::('p'::(' '::('g'::('e'::('t'::('E'::('l'::('e'::('m'::('e'::('n'::('t'::(':'::(' '::('i'::('n'::('d'::('e'::('x'::(' '::('o'::('u'::('t'::('s'::('i'::('d'::('e'::(' '::('t'::('h'::('e'::(' '::('e'::('l'::('e'::('m'::('e'::('n'::('t'::(' '::('v'::('e'::('c'::('t'::('o'::('r'::[]))))))))))))))))))))))))))))))))))))))))))))))))))))))))))
-  and case_equals fuel v e c =
-    match fuel with
-    | O -> failm FFuel
-    | S f ->
-      bind (eval f e c) (fun r ->
-        if (&&) (dt_is v.r_type KReal) (dt_is r.r_type KInt)
-        then bind (as_real v) (fun a ->
-               bind (as_int r) (fun b -> ret (req a (real_of_z b))))
-        else if (&&) (dt_is v.r_type KInt) (dt_is r.r_type KReal)
-             then bind (as_int v) (fun a ->
-                    bind (as_real r) (fun b -> ret (req (real_of_z a) b)))
-             else if negb (dt_eq v.r_type r.r_type)
-                  then ret false
-                  else (match v.r_type.dk with
-                        | KNone ->
-                          crash
-                            ('c'::('a'::('s'::('e'::('.'::('c'::('p'::('p'::(' '::('E'::('q'::('u'::('a'::('l'::('s'::('C'::('a'::('s'::('e'::('C'::('o'::('m'::('p'::('o'::('n'::('e'::('n'::('t'::(' '::('a'::('b'::('o'::('r'::('t'::[]))))))))))))))))))))))))))))))))))
-                        | KInt ->
-                          bind (as_int v) (fun a ->
-                            bind (as_int r) (fun b -> ret (Z.eqb a b)))
-                        | KReal ->
-                          bind (as_real v) (fun a ->
-                            bind (as_real r) (fun b -> ret (req a b)))
-                        | KBool ->
-                          bind (as_bool v) (fun a ->
-                            bind (as_bool r) (fun b -> ret (eqb a b)))
-                        | KChar ->
-                          bind (as_char v) (fun a ->
-                            bind (as_char r) (fun b -> ret (aeqb a b)))
-                        | KStr ->
-                          bind (as_str v) (fun a ->
-                            bind (as_str r) (fun b -> ret (str_eqb a b)))
-                        | KDate ->
-                          bind (as_payload v) (fun a ->
-                            bind (as_payload r) (fun b ->
-                              match a with
-                              | PDate (d1, m1, y1) ->
-                                (match b with
-                                 | PDate (d2, m2, y2) ->
-                                   ret
-                                     ((&&) ((&&) (Z.eqb d1 d2) (Z.eqb m1 m2))
-                                       (Z.eqb y1 y2))
-                                 | _ ->
-                                   crash
-                                     ('g'::('e'::('t'::('<'::('D'::('a'::('t'::('e'::('>'::(' '::('o'::('n'::(' '::('o'::('t'::('h'::('e'::('r'::(' '::('p'::('a'::('y'::('l'::('o'::('a'::('d'::[])))))))))))))))))))))))))))
-                              | _ ->
-                                crash
-                                  ('g'::('e'::('t'::('<'::('D'::('a'::('t'::('e'::('>'::(' '::('o'::('n'::(' '::('o'::('t'::('h'::('e'::('r'::(' '::('p'::('a'::('y'::('l'::('o'::('a'::('d'::[]))))))))))))))))))))))))))))
-                        | KEnum ->
-                          bind (as_payload v) (fun a ->
-                            bind (as_payload r) (fun b ->
-                              match a with
-                              | PEnum (_, i) ->
-                                (match b with
-                                 | PEnum (_, j) -> ret (Z.eqb i j)
-                                 | _ ->
-                                   crash
-                                     ('g'::('e'::('t'::('<'::('E'::('n'::('u'::('m'::('>'::(' '::('o'::('n'::(' '::('o'::('t'::('h'::('e'::('r'::(' '::('p'::('a'::('y'::('l'::('o'::('a'::('d'::[])))))))))))))))))))))))))))
-                              | _ ->
-                                crash
-                                  ('g'::('e'::('t'::('<'::('E'::('n'::('u'::('m'::('>'::(' '::('o'::('n'::(' '::('o'::('t'::('h'::('e'::('r'::(' '::('p'::('a'::('y'::('l'::('o'::('a'::('d'::[]))))))))))))))))))))))))))))
-                        | KPtr ->
-                          bind (as_payload v) (fun a ->
-                            bind (as_payload r) (fun b ->
-                              match a with
-                              | PPtr (_, t1, _) ->
-                                (match b with
-                                 | PPtr (_, t2, _) ->
-                                   ret
-                                     (match t1 with
-                                      | Some x ->
-                                        (match t2 with
-                                         | Some y -> N.eqb x y
-                                         | None -> false)
-                                      | None ->
-                                        (match t2 with
-                                         | Some _ -> false
-                                         | None -> true))
-                                 | _ ->
-                                   crash
-                                     ('g'::('e'::('t'::('<'::('P'::('o'::('i'::('n'::('t'::('e'::('r'::('>'::(' '::('o'::('n'::(' '::('o'::('t'::('h'::('e'::('r'::(' '::('p'::('a'::('y'::('l'::('o'::('a'::('d'::[]))))))))))))))))))))))))))))))
-                              | _ ->
-                                crash
-                                  ('g'::('e'::('t'::('<'::('P'::('o'::('i'::('n'::('t'::('e'::('r'::('>'::(' '::('o'::('n'::(' '::('o'::('t'::('h'::('e'::('r'::(' '::('p'::('a'::('y'::('l'::('o'::('a'::('d'::[])))))))))))))))))))))))))))))))
-                        | KRec -> ret false))
-  and case_range fuel v lo hi c =
-    match fuel with
-    | O -> failm FFuel
-    | S f ->
-      if negb (is_numeric v.r_type)
-      then ret false
-      else bind (num_as_real v) (fun tv ->
-             bind (eval f lo c) (fun lr ->
-               if negb (is_numeric lr.r_type)
-               then rt_error (node_token lo) c
-               else bind (num_as_real lr) (fun lv ->
-                      bind (eval f hi c) (fun hr ->
-                        if negb (is_numeric hr.r_type)
-                        then rt_error (node_token hi) c
-                        else bind (num_as_real hr) (fun hv ->
-                               ret ((&&) (rle lv tv) (rle tv hv)))))))
-  and run_block0 fuel b c =
-    match fuel with
-    | O -> failm FFuel
-    | S f ->
-      iterM (fun n0 ->
-        bind (tick lim (node_token n0) c) (fun _ ->
-          bind (eval f n0 c) (fun r ->
-            if repl then echo_result c r else ret ()))) b
-  and new_var fuel name ty cst owner =
-    match fuel with
-    | O -> failm FFuel
-    | S f ->
-      (match default_prim ty with
-       | Some p0 ->
-         bind fresh (fun id ->
-           bind
-             (put_cell id { c_name = name; c_type = ty; c_const = cst;
-               c_owner = owner; c_val = p0 }) (fun _ -> ret id))
-       | None ->
-         (match ty.dk with
-          | KNone ->
-            crash
-              ('v'::('a'::('r'::('i'::('a'::('b'::('l'::('e'::('.'::('c'::('p'::('p'::(' '::('V'::('a'::('r'::('i'::('a'::('b'::('l'::('e'::(' '::('N'::('O'::('N'::('E'::(' '::('a'::('b'::('o'::('r'::('t'::[]))))))))))))))))))))))))))))))))
-          | KRec ->
-            (match ty.dname with
-             | Some tn ->
-               bind (new_ctx (Some owner) tn false true dt_none) (fun rc ->
-                 bind (lookup_comp_def rc tn true) (fun d ->
-                   match d with
-                   | Some body ->
-                     bind (run_block0 f body rc) (fun _ ->
-                       bind fresh (fun id ->
-                         bind
-                           (put_cell id { c_name = name; c_type = ty;
-                             c_const = cst; c_owner = owner; c_val = (PRec
-                             (tn, rc)) }) (fun _ -> ret id)))
-                   | None ->
-                     crash
-                       ('u'::('s'::('e'::('r'::('T'::('y'::('p'::('e'::('.'::('c'::('p'::('p'::(' '::('C'::('o'::('m'::('p'::('o'::('s'::('i'::('t'::('e'::(':'::(':'::('g'::('e'::('t'::('D'::('e'::('f'::('i'::('n'::('i'::('t'::('i'::('o'::('n'::(' '::('n'::('u'::('l'::('l'::[]))))))))))))))))))))))))))))))))))))))))))))
-             | None ->
-               crash
-                 ('v'::('a'::('r'::('i'::('a'::('b'::('l'::('e'::('.'::('c'::('p'::('p'::(':'::(' '::('u'::('s'::('e'::('r'::(' '::('t'::('y'::('p'::('e'::(' '::('w'::('i'::('t'::('h'::('o'::('u'::('t'::(' '::('a'::(' '::('n'::('a'::('m'::('e'::[])))))))))))))))))))))))))))))))))))))))
-          | _ ->
-            crash
-              ('v'::('a'::('r'::('i'::('a'::('b'::('l'::('e'::('.'::('c'::('p'::('p'::(':'::(' '::('u'::('s'::('e'::('r'::(' '::('t'::('y'::('p'::('e'::(' '::('w'::('i'::('t'::('h'::('o'::('u'::('t'::(' '::('a'::(' '::('n'::('a'::('m'::('e'::[]))))))))))))))))))))))))))))))))))))))))
-  and new_array fuel name ty dims owner =
-    match fuel with
-    | O -> failm FFuel
-    | S f ->
-      let n0 = total_size dims in
-      bind (alloc_cells lim n0 owner) (fun _ ->
-        bind (repeatM (Z.to_nat n0) (new_var f name ty false owner))
-          (fun elems ->
-          bind fresh (fun aid ->
-            bind
-              (put_arr aid { a_name = name; a_type = ty; a_dims = dims;
-                a_elems = elems }) (fun _ -> ret aid))))
-  and bind_args fuel t0 params args vals c fc =
-    match fuel with
-    | O -> failm FFuel
-    | S f ->
-      (match params with
-       | [] -> ret ()
-       | p0 :: pr ->
-         let (p1, byref) = p0 in
-         let (pn, pty) = p1 in
-         (match args with
-          | [] ->
-            crash
-              ('c'::('a'::('l'::('l'::(':'::(' '::('a'::('r'::('g'::('u'::('m'::('e'::('n'::('t'::(' '::('v'::('e'::('c'::('t'::('o'::('r'::('s'::(' '::('o'::('f'::(' '::('d'::('i'::('f'::('f'::('e'::('r'::('e'::('n'::('t'::(' '::('l'::('e'::('n'::('g'::('t'::('h'::[]))))))))))))))))))))))))))))))))))))))))))
-          | a :: ar ->
-            (match vals with
-             | [] ->
-               crash
-                 ('c'::('a'::('l'::('l'::(':'::(' '::('a'::('r'::('g'::('u'::('m'::('e'::('n'::('t'::(' '::('v'::('e'::('c'::('t'::('o'::('r'::('s'::(' '::('o'::('f'::(' '::('d'::('i'::('f'::('f'::('e'::('r'::('e'::('n'::('t'::(' '::('l'::('e'::('n'::('g'::('t'::('h'::[]))))))))))))))))))))))))))))))))))))))))))
-             | v :: vr ->
-               bind (if byref then ret v else implicit_cast pty v) (fun v' ->
-                 if negb (dt_eq pty v'.r_type)
-                 then rt_error t0 c
-                 else bind
-                        (if byref
-                         then (match a with
-                               | NAccess (_, rs) ->
-                                 bind (resolve f rs c) (fun h ->
-                                   bind (expect_holder_var t0 c h) (fun id ->
-                                     add_var fc pn id))
-                               | _ -> rt_error t0 c)
-                         else bind (new_var f pn v'.r_type false fc)
-                                (fun id ->
-                                bind (assign_val hfuel id v') (fun _ ->
-                                  add_var fc pn id))) (fun _ ->
-                        bind_args f t0 pr ar vr c fc)))))
-  and call_procedure fuel t0 name args c =
-    match fuel with
-    | O -> failm FFuel
-    | S f ->
-      bind (gets (fun s -> s.s_procs)) (fun ps ->
-        match assoc_str name ps with
-        | Some pd ->
-          bind (mapM (fun a -> eval f a c) args) (fun vals ->
-            if negb (Nat.eqb (length args) (length pd.pd_params))
-            then rt_error t0 c
-            else bind (new_ctx (Some c) name false false dt_none) (fun pc ->
-                   bind (bind_args f t0 pd.pd_params args vals c pc)
-                     (fun _ ->
-                     bind
-                       (upd_ctx c
-                         (ctx_with_switch (Some (t0.tline, t0.tcol))))
-                       (fun _ ->
-                       bind (gets (fun s -> s.s_depth)) (fun d ->
-                         bind
-                           (if (&&) (Z.ltb Z0 lim.max_depth)
-                                 (Z.ltb lim.max_depth (Z.add d (Zpos XH)))
-                            then budget_error t0 c
-                            else ret ()) (fun _ ->
-                           bind (modify (set_depth (Z.add d (Zpos XH))))
-                             (fun _ ->
-                             bind
-                               (call_body d pc false
-                                 (run_block0 f pd.pd_body pc)) (fun _ ->
-                               bind (upd_ctx c (ctx_with_switch None))
-                                 (fun _ -> ret res_none)))))))))
-        | None -> not_defined_error t0 c)
-  and call_function fuel t0 args c =
-    match fuel with
-    | O -> failm FFuel
-    | S f ->
-      let name = t0.tval in
-      bind (gets (fun s -> s.s_funcs)) (fun fs ->
-        match builtin_sig name with
-        | Some p0 ->
-          let (pkinds, rk) = p0 in
-          bind (mapM (fun a -> eval f a c) args) (fun vals ->
-            if negb (Nat.eqb (length args) (length pkinds))
-            then rt_error t0 c
-            else bind (new_ctx (Some c) name true false (dt_prim rk))
-                   (fun fc ->
-                   bind (builtin_args t0 c pkinds vals) (fun ps ->
-                     bind
-                       (upd_ctx c
-                         (ctx_with_switch (Some (t0.tline, t0.tcol))))
-                       (fun _ ->
-                       bind (gets (fun s -> s.s_depth)) (fun d ->
-                         bind
-                           (if (&&) (Z.ltb Z0 lim.max_depth)
-                                 (Z.ltb lim.max_depth (Z.add d (Zpos XH)))
-                            then budget_error t0 c
-                            else ret ()) (fun _ ->
-                           bind (run_builtin name fc ps) (fun r ->
-                             bind (upd_ctx c (ctx_with_switch None))
-                               (fun _ -> ret r))))))))
+                      bind (lookup_arr rc m0.tval false) (fun a ->
+                        match a with
+                        | Some aid -> ret (HArr aid)
+                        | None -> rt_error t0 c))
+                | _ ->
+                  crash
+                    ('c'::('e'::('l'::('l'::(' '::('p'::('a'::('y'::('l'::('o'::('a'::('d'::(' '::('d'::('i'::('s'::('a'::('g'::('r'::('e'::('e'::('s'::(' '::('w'::('i'::('t'::('h'::(' '::('i'::('t'::('s'::(' '::('t'::('y'::('p'::('e'::[]))))))))))))))))))))))))))))))))))))))
+      | HArr _ -> rt_error t0 c)
+  | RDeref (t0, r') ->
+    bind (self.ev_resolve r' c) (fun h ->
+      match h with
+      | HVar id ->
+        bind (get_cell id) (fun cl ->
+          if negb (dt_is cl.c_type KPtr)
+          then rt_error t0 c
+          else (match cl.c_val with
+                | PPtr (_, tgt, owner) ->
+                  bind (on_chain c owner) (fun live ->
+                    if negb live
+                    then rt_error t0 c
+                    else (match tgt with
+                          | Some tid -> ret (HVar tid)
+                          | None -> rt_error t0 c))
+                | _ ->
+                  crash
+                    ('c'::('e'::('l'::('l'::(' '::('p'::('a'::('y'::('l'::('o'::('a'::('d'::(' '::('d'::('i'::('s'::('a'::('g'::('r'::('e'::('e'::('s'::(' '::('w'::('i'::('t'::('h'::(' '::('i'::('t'::('s'::(' '::('t'::('y'::('p'::('e'::[]))))))))))))))))))))))))))))))))))))))
+      | HArr _ -> rt_error t0 c)
+  | RIndex (t0, r', idx) ->
+    bind (self.ev_resolve r' c) (fun h ->
+      match h with
+      | HVar _ -> rt_error t0 c
+      | HArr aid ->
+        bind (get_arr aid) (fun a ->
+          if negb (Nat.eqb (length idx) (length a.a_dims))
+          then rt_error t0 c
+          else bind (eval_indices (fun x -> self.ev_eval x c) c idx a.a_dims)
+                 (fun is ->
+                 match nth_z a.a_elems (linear is a.a_dims) with
+                 | Some eid -> ret (HVar eid)
+                 | None ->
+                   crash
+                     ('a'::('r'::('r'::('a'::('y'::('.'::('c'::('p'::('p'::(' '::('g'::('e'::('t'::('E'::('l'::('e'::('m'::('e'::('n'::('t'::(':'::(' '::('i'::('n'::('d'::('e'::('x'::(' '::('o'::('u'::('t'::('s'::('i'::('d'::('e'::(' '::('t'::('h'::('e'::(' '::('e'::('l'::('e'::('m'::('e'::('n'::('t'::(' '::('v'::('e'::('c'::('t'::('o'::('r'::[])))))))))))))))))))))))))))))))))))))))))))))))))))))))))
+
+(** val case_equals_body : evs -> result -> node -> n -> bool m **)
+
+let case_equals_body self v e c =
+  bind (self.ev_eval e c) (fun r ->
+    if (&&) (dt_is v.r_type KReal) (dt_is r.r_type KInt)
+    then bind (as_real v) (fun a ->
+           bind (as_int r) (fun b -> ret (req a (real_of_z b))))
+    else if (&&) (dt_is v.r_type KInt) (dt_is r.r_type KReal)
+         then bind (as_int v) (fun a ->
+                bind (as_real r) (fun b -> ret (req (real_of_z a) b)))
+         else if negb (dt_eq v.r_type r.r_type)
+              then ret false
+              else (match v.r_type.dk with
+                    | KNone ->
+                      crash
+                        ('c'::('a'::('s'::('e'::('.'::('c'::('p'::('p'::(' '::('E'::('q'::('u'::('a'::('l'::('s'::('C'::('a'::('s'::('e'::('C'::('o'::('m'::('p'::('o'::('n'::('e'::('n'::('t'::(' '::('a'::('b'::('o'::('r'::('t'::[]))))))))))))))))))))))))))))))))))
+                    | KInt ->
+                      bind (as_int v) (fun a ->
+                        bind (as_int r) (fun b -> ret (Z.eqb a b)))
+                    | KReal ->
+                      bind (as_real v) (fun a ->
+                        bind (as_real r) (fun b -> ret (req a b)))
+                    | KBool ->
+                      bind (as_bool v) (fun a ->
+                        bind (as_bool r) (fun b -> ret (eqb a b)))
+                    | KChar ->
+                      bind (as_char v) (fun a ->
+                        bind (as_char r) (fun b -> ret (aeqb a b)))
+                    | KStr ->
+                      bind (as_str v) (fun a ->
+                        bind (as_str r) (fun b -> ret (str_eqb a b)))
+                    | KDate ->
+                      bind (as_payload v) (fun a ->
+                        bind (as_payload r) (fun b ->
+                          match a with
+                          | PDate (d1, m1, y1) ->
+                            (match b with
+                             | PDate (d2, m2, y2) ->
+                               ret
+                                 ((&&) ((&&) (Z.eqb d1 d2) (Z.eqb m1 m2))
+                                   (Z.eqb y1 y2))
+                             | _ ->
+                               crash
+                                 ('g'::('e'::('t'::('<'::('D'::('a'::('t'::('e'::('>'::(' '::('o'::('n'::(' '::('o'::('t'::('h'::('e'::('r'::(' '::('p'::('a'::('y'::('l'::('o'::('a'::('d'::[])))))))))))))))))))))))))))
+                          | _ ->
+                            crash
+                              ('g'::('e'::('t'::('<'::('D'::('a'::('t'::('e'::('>'::(' '::('o'::('n'::(' '::('o'::('t'::('h'::('e'::('r'::(' '::('p'::('a'::('y'::('l'::('o'::('a'::('d'::[]))))))))))))))))))))))))))))
+                    | KEnum ->
+                      bind (as_payload v) (fun a ->
+                        bind (as_payload r) (fun b ->
+                          match a with
+                          | PEnum (_, i) ->
+                            (match b with
+                             | PEnum (_, j) -> ret (Z.eqb i j)
+                             | _ ->
+                               crash
+                                 ('g'::('e'::('t'::('<'::('E'::('n'::('u'::('m'::('>'::(' '::('o'::('n'::(' '::('o'::('t'::('h'::('e'::('r'::(' '::('p'::('a'::('y'::('l'::('o'::('a'::('d'::[])))))))))))))))))))))))))))
+                          | _ ->
+                            crash
+                              ('g'::('e'::('t'::('<'::('E'::('n'::('u'::('m'::('>'::(' '::('o'::('n'::(' '::('o'::('t'::('h'::('e'::('r'::(' '::('p'::('a'::('y'::('l'::('o'::('a'::('d'::[]))))))))))))))))))))))))))))
+                    | KPtr ->
+                      bind (as_payload v) (fun a ->
+                        bind (as_payload r) (fun b ->
+                          match a with
+                          | PPtr (_, t1, _) ->
+                            (match b with
+                             | PPtr (_, t2, _) ->
+                               ret
+                                 (match t1 with
+                                  | Some x ->
+                                    (match t2 with
+                                     | Some y -> N.eqb x y
+                                     | None -> false)
+                                  | None ->
+                                    (match t2 with
+                                     | Some _ -> false
+                                     | None -> true))
+                             | _ ->
+                               crash
+                                 ('g'::('e'::('t'::('<'::('P'::('o'::('i'::('n'::('t'::('e'::('r'::('>'::(' '::('o'::('n'::(' '::('o'::('t'::('h'::('e'::('r'::(' '::('p'::('a'::('y'::('l'::('o'::('a'::('d'::[]))))))))))))))))))))))))))))))
+                          | _ ->
+                            crash
+                              ('g'::('e'::('t'::('<'::('P'::('o'::('i'::('n'::('t'::('e'::('r'::('>'::(' '::('o'::('n'::(' '::('o'::('t'::('h'::('e'::('r'::(' '::('p'::('a'::('y'::('l'::('o'::('a'::('d'::[])))))))))))))))))))))))))))))))
+                    | KRec -> ret false))
+
+(** val case_range_body : evs -> result -> node -> node -> n -> bool m **)
+
+let case_range_body self v lo hi c =
+  if negb (is_numeric v.r_type)
+  then ret false
+  else bind (num_as_real v) (fun tv ->
+         bind (self.ev_eval lo c) (fun lr ->
+           if negb (is_numeric lr.r_type)
+           then rt_error (node_token lo) c
+           else bind (num_as_real lr) (fun lv ->
+                  bind (self.ev_eval hi c) (fun hr ->
+                    if negb (is_numeric hr.r_type)
+                    then rt_error (node_token hi) c
+                    else bind (num_as_real hr) (fun hv ->
+                           ret ((&&) (rle lv tv) (rle tv hv)))))))
+
+(** val run_block_body : bool -> limits -> evs -> block -> n -> unit m **)
+
+let run_block_body repl lim self b c =
+  iterM (fun n0 ->
+    bind (tick lim (node_token n0) c) (fun _ ->
+      bind (self.ev_eval n0 c) (fun r ->
+        if repl then echo_result c r else ret ()))) b
+
+(** val new_var_body : evs -> str -> dtype -> bool -> n -> n m **)
+
+let new_var_body self name ty cst owner =
+  match default_prim ty with
+  | Some p0 ->
+    bind fresh (fun id ->
+      bind
+        (put_cell id { c_name = name; c_type = ty; c_const = cst; c_owner =
+          owner; c_val = p0 }) (fun _ -> ret id))
+  | None ->
+    (match ty.dk with
+     | KNone ->
+       crash
+         ('v'::('a'::('r'::('i'::('a'::('b'::('l'::('e'::('.'::('c'::('p'::('p'::(' '::('V'::('a'::('r'::('i'::('a'::('b'::('l'::('e'::(' '::('N'::('O'::('N'::('E'::(' '::('a'::('b'::('o'::('r'::('t'::[]))))))))))))))))))))))))))))))))
+     | KRec ->
+       (match ty.dname with
+        | Some tn ->
+          bind (new_ctx (Some owner) tn false true dt_none) (fun rc ->
+            bind (lookup_comp_def rc tn true) (fun d ->
+              match d with
+              | Some body ->
+                bind (self.ev_run_block body rc) (fun _ ->
+                  bind fresh (fun id ->
+                    bind
+                      (put_cell id { c_name = name; c_type = ty; c_const =
+                        cst; c_owner = owner; c_val = (PRec (tn, rc)) })
+                      (fun _ -> ret id)))
+              | None ->
+                crash
+                  ('u'::('s'::('e'::('r'::('T'::('y'::('p'::('e'::('.'::('c'::('p'::('p'::(' '::('C'::('o'::('m'::('p'::('o'::('s'::('i'::('t'::('e'::(':'::(':'::('g'::('e'::('t'::('D'::('e'::('f'::('i'::('n'::('i'::('t'::('i'::('o'::('n'::(' '::('n'::('u'::('l'::('l'::[]))))))))))))))))))))))))))))))))))))))))))))
         | None ->
-          (match assoc_str name fs with
-           | Some fd ->
-             bind (mapM (fun a -> eval f a c) args) (fun vals ->
-               if negb (Nat.eqb (length args) (length fd.fd_params))
-               then rt_error t0 c
-               else bind (new_ctx (Some c) name true false fd.fd_ret)
-                      (fun fc ->
-                      bind (bind_args f t0 fd.fd_params args vals c fc)
-                        (fun _ ->
+          crash
+            ('v'::('a'::('r'::('i'::('a'::('b'::('l'::('e'::('.'::('c'::('p'::('p'::(':'::(' '::('u'::('s'::('e'::('r'::(' '::('t'::('y'::('p'::('e'::(' '::('w'::('i'::('t'::('h'::('o'::('u'::('t'::(' '::('a'::(' '::('n'::('a'::('m'::('e'::[])))))))))))))))))))))))))))))))))))))))
+     | _ ->
+       crash
+         ('v'::('a'::('r'::('i'::('a'::('b'::('l'::('e'::('.'::('c'::('p'::('p'::(':'::(' '::('u'::('s'::('e'::('r'::(' '::('t'::('y'::('p'::('e'::(' '::('w'::('i'::('t'::('h'::('o'::('u'::('t'::(' '::('a'::(' '::('n'::('a'::('m'::('e'::[])))))))))))))))))))))))))))))))))))))))
+
+(** val new_array_body :
+    limits -> evs -> str -> dtype -> dim list -> n -> n m **)
+
+let new_array_body lim self name ty dims owner =
+  let n0 = total_size dims in
+  bind (alloc_cells lim n0 owner) (fun _ ->
+    bind (repeatM (Z.to_nat n0) (self.ev_new_var name ty false owner))
+      (fun elems ->
+      bind fresh (fun aid ->
+        bind
+          (put_arr aid { a_name = name; a_type = ty; a_dims = dims; a_elems =
+            elems }) (fun _ -> ret aid))))
+
+(** val bind_args_body :
+    evs -> token -> ((str * dtype) * bool) list -> node list -> result list
+    -> n -> n -> unit m **)
+
+let bind_args_body self t0 params args vals c fc =
+  match params with
+  | [] -> ret ()
+  | p0 :: pr ->
+    let (p1, byref) = p0 in
+    let (pn, pty) = p1 in
+    (match args with
+     | [] ->
+       crash
+         ('c'::('a'::('l'::('l'::(':'::(' '::('a'::('r'::('g'::('u'::('m'::('e'::('n'::('t'::(' '::('v'::('e'::('c'::('t'::('o'::('r'::('s'::(' '::('o'::('f'::(' '::('d'::('i'::('f'::('f'::('e'::('r'::('e'::('n'::('t'::(' '::('l'::('e'::('n'::('g'::('t'::('h'::[]))))))))))))))))))))))))))))))))))))))))))
+     | a :: ar ->
+       (match vals with
+        | [] ->
+          crash
+            ('c'::('a'::('l'::('l'::(':'::(' '::('a'::('r'::('g'::('u'::('m'::('e'::('n'::('t'::(' '::('v'::('e'::('c'::('t'::('o'::('r'::('s'::(' '::('o'::('f'::(' '::('d'::('i'::('f'::('f'::('e'::('r'::('e'::('n'::('t'::(' '::('l'::('e'::('n'::('g'::('t'::('h'::[]))))))))))))))))))))))))))))))))))))))))))
+        | v :: vr ->
+          bind (if byref then ret v else implicit_cast pty v) (fun v' ->
+            if negb (dt_eq pty v'.r_type)
+            then rt_error t0 c
+            else bind
+                   (if byref
+                    then (match a with
+                          | NAccess (_, rs) ->
+                            bind (self.ev_resolve rs c) (fun h ->
+                              bind (expect_holder_var t0 c h) (fun id ->
+                                add_var fc pn id))
+                          | _ -> rt_error t0 c)
+                    else bind (self.ev_new_var pn v'.r_type false fc)
+                           (fun id ->
+                           bind (assign_val hfuel id v') (fun _ ->
+                             add_var fc pn id))) (fun _ ->
+                   self.ev_bind_args t0 pr ar vr c fc))))
+
+(** val call_procedure_body :
+    limits -> evs -> token -> str -> node list -> n -> result m **)
+
+let call_procedure_body lim self t0 name args c =
+  bind (gets (fun s -> s.s_procs)) (fun ps ->
+    match assoc_str name ps with
+    | Some pd ->
+      bind (mapM (fun a -> self.ev_eval a c) args) (fun vals ->
+        if negb (Nat.eqb (length args) (length pd.pd_params))
+        then rt_error t0 c
+        else bind (new_ctx (Some c) name false false dt_none) (fun pc ->
+               bind (self.ev_bind_args t0 pd.pd_params args vals c pc)
+                 (fun _ ->
+                 bind
+                   (upd_ctx c (ctx_with_switch (Some (t0.tline, t0.tcol))))
+                   (fun _ ->
+                   bind (gets (fun s -> s.s_depth)) (fun d ->
+                     bind
+                       (if (&&) (Z.ltb Z0 lim.max_depth)
+                             (Z.ltb lim.max_depth (Z.add d (Zpos XH)))
+                        then budget_error t0 c
+                        else ret ()) (fun _ ->
+                       bind (modify (set_depth (Z.add d (Zpos XH))))
+                         (fun _ ->
+                         bind
+                           (call_body d pc false
+                             (self.ev_run_block pd.pd_body pc)) (fun _ ->
+                           bind (upd_ctx c (ctx_with_switch None)) (fun _ ->
+                             ret res_none)))))))))
+    | None -> not_defined_error t0 c)
+
+(** val call_function_body :
+    limits -> evs -> token -> node list -> n -> result m **)
+
+let call_function_body lim self t0 args c =
+  let name = t0.tval in
+  bind (gets (fun s -> s.s_funcs)) (fun fs ->
+    match builtin_sig name with
+    | Some p0 ->
+      let (pkinds, rk) = p0 in
+      bind (mapM (fun a -> self.ev_eval a c) args) (fun vals ->
+        if negb (Nat.eqb (length args) (length pkinds))
+        then rt_error t0 c
+        else bind (new_ctx (Some c) name true false (dt_prim rk)) (fun fc ->
+               bind (builtin_args t0 c pkinds vals) (fun ps ->
+                 bind
+                   (upd_ctx c (ctx_with_switch (Some (t0.tline, t0.tcol))))
+                   (fun _ ->
+                   bind (gets (fun s -> s.s_depth)) (fun d ->
+                     bind
+                       (if (&&) (Z.ltb Z0 lim.max_depth)
+                             (Z.ltb lim.max_depth (Z.add d (Zpos XH)))
+                        then budget_error t0 c
+                        else ret ()) (fun _ ->
+                       bind (run_builtin name fc ps) (fun r ->
+                         bind (upd_ctx c (ctx_with_switch None)) (fun _ ->
+                           ret r))))))))
+    | None ->
+      (match assoc_str name fs with
+       | Some fd ->
+         bind (mapM (fun a -> self.ev_eval a c) args) (fun vals ->
+           if negb (Nat.eqb (length args) (length fd.fd_params))
+           then rt_error t0 c
+           else bind (new_ctx (Some c) name true false fd.fd_ret) (fun fc ->
+                  bind (self.ev_bind_args t0 fd.fd_params args vals c fc)
+                    (fun _ ->
+                    bind
+                      (upd_ctx c (ctx_with_switch (Some (t0.tline, t0.tcol))))
+                      (fun _ ->
+                      bind (gets (fun s -> s.s_depth)) (fun d ->
                         bind
-                          (upd_ctx c
-                            (ctx_with_switch (Some (t0.tline, t0.tcol))))
-                          (fun _ ->
-                          bind (gets (fun s -> s.s_depth)) (fun d ->
+                          (if (&&) (Z.ltb Z0 lim.max_depth)
+                                (Z.ltb lim.max_depth (Z.add d (Zpos XH)))
+                           then budget_error t0 c
+                           else ret ()) (fun _ ->
+                          bind (modify (set_depth (Z.add d (Zpos XH))))
+                            (fun _ ->
                             bind
-                              (if (&&) (Z.ltb Z0 lim.max_depth)
-                                    (Z.ltb lim.max_depth (Z.add d (Zpos XH)))
-                               then budget_error t0 c
-                               else ret ()) (fun _ ->
-                              bind (modify (set_depth (Z.add d (Zpos XH))))
-                                (fun _ ->
-                                bind
-                                  (call_body d fc true
-                                    (run_block0 f fd.fd_body fc)) (fun _ ->
-                                  bind (get_ctx fc) (fun fx ->
-                                    match fx.x_retval with
-                                    | Some r ->
-                                      bind (upd_ctx c (ctx_with_switch None))
-                                        (fun _ -> ret r)
-                                    | None -> rt_error fd.fd_tok fc)))))))))
-           | None -> not_defined_error t0 c))
-  in run_block0
+                              (call_body d fc true
+                                (self.ev_run_block fd.fd_body fc)) (fun _ ->
+                              bind (get_ctx fc) (fun fx ->
+                                match fx.x_retval with
+                                | Some r ->
+                                  bind (upd_ctx c (ctx_with_switch None))
+                                    (fun _ -> ret r)
+                                | None -> rt_error fd.fd_tok fc)))))))))
+       | None -> not_defined_error t0 c))
+
+(** val evs_zero : evs **)
+
+let evs_zero =
+  { ev_fuel = O; ev_eval = (fun _ _ -> failm FFuel); ev_resolve = (fun _ _ ->
+    failm FFuel); ev_case_equals = (fun _ _ _ -> failm FFuel);
+    ev_case_range = (fun _ _ _ _ -> failm FFuel); ev_run_block = (fun _ _ ->
+    failm FFuel); ev_new_var = (fun _ _ _ _ -> failm FFuel); ev_new_array =
+    (fun _ _ _ _ -> failm FFuel); ev_bind_args = (fun _ _ _ _ _ _ ->
+    failm FFuel); ev_call_procedure = (fun _ _ _ _ -> failm FFuel);
+    ev_call_function = (fun _ _ _ -> failm FFuel) }
+
+(** val evs_step : bool -> bool -> limits -> evs -> evs **)
+
+let evs_step pedantic repl lim self =
+  { ev_fuel = (S self.ev_fuel); ev_eval = (eval_body pedantic lim self);
+    ev_resolve = (resolve_body self); ev_case_equals =
+    (case_equals_body self); ev_case_range = (case_range_body self);
+    ev_run_block = (run_block_body repl lim self); ev_new_var =
+    (new_var_body self); ev_new_array = (new_array_body lim self);
+    ev_bind_args = (bind_args_body self); ev_call_procedure =
+    (call_procedure_body lim self); ev_call_function =
+    (call_function_body lim self) }
+
+(** val evs_at : bool -> bool -> limits -> nat -> evs **)
+
+let rec evs_at pedantic repl lim = function
+| O -> evs_zero
+| S f -> evs_step pedantic repl lim (evs_at pedantic repl lim f)
+
+(** val run_block : bool -> bool -> limits -> nat -> block -> n -> unit m **)
+
+let run_block pedantic repl lim fuel =
+  (evs_at pedantic repl lim fuel).ev_run_block
 
 type status =
 | SDone
